@@ -1,11 +1,16 @@
 #!/usr/bin/env python3
 """flatset2lean -- regenerates, from the *current* include/amc/flatset.hpp, Lean 4 definitions of the decision logic of
-amc::FlatSet (insert_hint, insert_val, insert, find, erase(key), lower_bound, upper_bound, contains, count, equal_range).
+amc::FlatSet: insert_hint, insert_val, insert, find, erase(key), lower_bound, upper_bound, contains, count, equal_range (T2) and
+(T8) erase(position), erase(first, last), clear, size, empty, swap, the comparison operators, mfind, extract(key / position),
+insert(node_type&&), insert(hint, node_type&&), eraseDuplicates, insert(first, last), insert(initializer_list), operator=(initializer_list),
+operator=(vector&&), the range / initializer-list / vector constructors, merge (both overloads).
 
 Method (same as amc2lean.py): clang++-14 dumps the typed JSON AST of the explicit instantiation `amc::FlatSet<int>`;
 each selected member body is executed symbolically with path splitting (no state merging).  Abstract domain:
 
-  the sorted vector          a Lean term of type `List α` (initially the parameter `l`)
+  the sorted vector          a Lean term of type `List α` (initially the parameter `l`; of the other set of a two-object member: `o`)
+  the comparator object      a Lean term of type `α → α → Bool`: `lt` (stored in *this), `lt_o` (stored in the other set), a constructor
+                             parameter `comp`, or `lt_default` = a DEFAULT-CONSTRUCTED comparator (`Compare()`), which is not the stored one
   an iterator                a Lean `Nat` index (begin() = 0, end() = length of the *current* list)
   `*it`                      `match l[it]? with | none => none | some x => …`: the `none` arm is "dereference of an iterator
                              outside [begin, end)" = undefined behaviour, which makes the whole result `none`
@@ -14,20 +19,36 @@ each selected member body is executed symbolically with path splitting (no state
   `compRef()(a, b)`          `lt a b`, and the comparator-call count of the path is incremented
   `std::lower_bound(f, l, v, comp)`   `Sets.lowerBound lt list v f (l - f)` (hand-written model of the libstdc++ loop)
   `_sortedVector.insert(it, v)`       list := list.insertIdx it v, returns `it`
-  `_sortedVector.erase(it)`           list := list.eraseIdx it, returns `it`
+  `_sortedVector.insert(pos, f, l)`   list := list ++ range (at end()) / take pos ++ range ++ drop pos
+  `_sortedVector.erase(it)`           list := list.eraseIdx it, returns `it`; undefined behaviour unless it < length
+  `_sortedVector.erase(f, l)`         list := list.take f ++ list.drop l; undefined behaviour unless f <= l <= length
   `_sortedVector.push_back(v)`        list := list ++ [v];  `.back()` / `.front()` = dereference of end() - 1 / begin();
-                             `.empty()` = (length = 0);  `.size()` = length
+                             `.empty()` = (length = 0);  `.size()` = length;  `.clear()`, `.swap(o._sortedVector)`
+  `_sortedVector == / < o._sortedVector`   `vecEq eqT l o` / `vecLess ltT l o` (std::equal / std::lexicographical_compare with the operators
+                             `eqT`, `ltT` of the ELEMENT type: extra parameters of the generated function)
+  `std::stable_sort(it, end(), c)`    list := `stableSortTail c list it`;  `std::sort` is REFUSED (not stable: no list function)
+  `std::inplace_merge(begin(), it, end(), c)`   list := `inplaceMerge c list it`
+  `erase(std::unique(begin(), end(), pred), end())`   list := `uniqueBy pred list`; the lambda `pred` is executed symbolically on its own
+                             and emitted as `<member>_pred` (so WHICH comparator object it uses is part of the generated text)
+  a node handle              an `Option α`; a `node_type&&` parameter is split at entry (`match nh with`), its final value is returned
+  an input range [first, last), an initializer_list, a `vector_type&&`   a Lean parameter of type `List α`
+  constructors               return (comparator object stored, content, calls); base / member initialisers and delegation are followed
+  `for (it = o.mbegin(); it != o.mend();) BODY` with `it = o._sortedVector.erase(it)` / `++it` at the end of every path of BODY
+                             `foldErase <member>_step o l []`: BODY is generated as a function of (content, element)
+  `while (COND) BODY` over local iterators of the two sets     `whileFuel <member>_step (l.length + o.length + 1) state`: COND and BODY are
+                             generated as a function of the state; the fuel has to be proved sufficient by the bridge
   `std::forward`, `std::move`, `T(x)`  identity on element values (moved-from states are not modelled)
   `assert(…)`                ignored
 
-Every generated function has the type `… → Option (List α × R × Nat)`: `none` = undefined behaviour reached, otherwise
-(final content, returned value, number of comparator calls).  A FlatSet member that is itself generated is *called*
-(`match callee … with | none => none | some r => …`), any other FlatSet member with a visible body (begin, end, mbegin, compRef,
-empty, …) is inlined, members of the underlying vector are primitives.
+Every generated function has the type `… → Option (List α × R × Nat)` (const: `Option (R × Nat)`; two sets: two contents, and the two
+comparator objects when the member changes them): `none` = undefined behaviour reached, otherwise (final content, returned
+value, number of comparator calls made by FlatSet's own code: calls inside std::stable_sort / inplace_merge / unique are not
+modelled).  A FlatSet member that is itself generated is *called* (`match callee … with | none => none | some r => …`), any other
+FlatSet member with a visible body (begin, end, mbegin, compRef, …) is inlined, members of the underlying vector are primitives.
 
 The translator refuses (exit status 2, message naming the construct and its source line) anything outside this subset.
 """
-import argparse, json, os, subprocess, sys, tempfile
+import argparse, json, os, re, subprocess, sys, tempfile
 
 CLANG = 'clang++-14'
 CLANG_TIMEOUT = 300
@@ -41,31 +62,84 @@ INST_SOURCE = '''#include <amc/flatset.hpp>
 template class amc::FlatSet<int>;
 template std::pair<amc::FlatSet<int>::iterator, bool> amc::FlatSet<int>::emplace<const int &>(const int &);
 template amc::FlatSet<int>::iterator amc::FlatSet<int>::emplace_hint<const int &>(amc::FlatSet<int>::const_iterator, const int &);
+template void amc::FlatSet<int>::insert<const int *>(const int *, const int *);
+template amc::FlatSet<int>::FlatSet(const int *, const int *, const std::less<int> &, const amc::allocator<int> &);
+template amc::FlatSet<int>::FlatSet(const int *, const int *, const amc::allocator<int> &);
+template void amc::FlatSet<int>::merge<std::greater<int>, true>(amc::FlatSet<int, std::greater<int>> &);
 '''
+DEFINES = ('AMC_NONSTD_FEATURES',)
+
+IT = 'amc::FlatSet<int>::const_iterator'
+CREF = 'amc::FlatSet<int>::const_reference'
+ALLOC = 'const amc::BasicAllocatorWrapper<int, amc::SimpleAllocator> &'
+COMP = 'const std::less<int> &'
+ILIST = 'std::initializer_list<value_type>'
+NODE = 'amc::FlatSet<int>::node_type &&'
 
 # (C++ member name, parameter types as clang prints them in the instantiation FlatSet<int>) -> Lean name.
+# A parameter type ('re', r) is matched as a regular expression.  The name `FlatSet` designates a constructor.
 # The order of this table is the order of the generated definitions (callees first).
 TARGETS = [
-    ('lower_bound', ('amc::FlatSet<int>::const_reference',), 'lower_bound'),
-    ('upper_bound', ('amc::FlatSet<int>::const_reference',), 'upper_bound'),
-    ('find', ('amc::FlatSet<int>::const_reference',), 'find'),
-    ('contains', ('amc::FlatSet<int>::const_reference',), 'contains'),
-    ('count', ('amc::FlatSet<int>::const_reference',), 'count'),
+    ('size', (), 'size'),
+    ('empty', (), 'empty'),
+    ('lower_bound', (CREF,), 'lower_bound'),
+    ('upper_bound', (CREF,), 'upper_bound'),
+    ('find', (CREF,), 'find'),
+    ('contains', (CREF,), 'contains'),
+    ('count', (CREF,), 'count'),
     ('equal_range', ('const amc::FlatSet<int>::key_type &',), 'equal_range'),
-    ('erase', ('amc::FlatSet<int>::const_reference',), 'erase'),
+    ('erase', (CREF,), 'erase'),
     ('insert_val', ('const int &',), 'insert_val'),
     ('insert_val', ('int &&',), 'insert_val_rv'),
     ('insert', ('const int &',), 'insert'),
     ('insert', ('int &&',), 'insert_rv'),
-    ('insert_hint', ('amc::FlatSet<int>::const_iterator', 'const int &'), 'insert_hint'),
-    ('insert_hint', ('amc::FlatSet<int>::const_iterator', 'int &&'), 'insert_hint_rv'),
-    ('insert', ('amc::FlatSet<int>::const_iterator', 'const int &'), 'insert_at'),
-    ('insert', ('amc::FlatSet<int>::const_iterator', 'int &&'), 'insert_at_rv'),
+    ('insert_hint', (IT, 'const int &'), 'insert_hint'),
+    ('insert_hint', (IT, 'int &&'), 'insert_hint_rv'),
+    ('insert', (IT, 'const int &'), 'insert_at'),
+    ('insert', (IT, 'int &&'), 'insert_at_rv'),
     ('emplace', ('const int &',), 'emplace'),
-    ('emplace_hint', ('amc::FlatSet<int>::const_iterator', 'const int &'), 'emplace_hint'),
+    ('emplace_hint', (IT, 'const int &'), 'emplace_hint'),
+    # ---- T8, priority 1
+    ('erase', (IT,), 'erase_at'),
+    ('erase', (IT, IT), 'erase_range'),
+    ('clear', (), 'clear'),
+    ('swap', ('amc::FlatSet<int> &',), 'swap'),
+    ('operator==', ('const amc::FlatSet<int> &',), 'op_eq'),
+    ('operator!=', ('const amc::FlatSet<int> &',), 'op_ne'),
+    ('operator<', ('const amc::FlatSet<int> &',), 'op_lt'),
+    ('operator<=', ('const amc::FlatSet<int> &',), 'op_le'),
+    ('operator>', ('const amc::FlatSet<int> &',), 'op_gt'),
+    ('operator>=', ('const amc::FlatSet<int> &',), 'op_ge'),
+    ('mfind', (CREF,), 'mfind'),
+    ('extract', ('const amc::FlatSet<int>::key_type &',), 'extract'),
+    ('extract', (IT,), 'extract_at'),
+    ('insert', (NODE,), 'insert_node'),
+    ('insert', (IT, NODE), 'insert_node_at'),
 ]
+TARGETS_P2 = [
+    ('eraseDuplicates', (), 'eraseDuplicates'),
+    ('insert', ('const int *', 'const int *'), 'insert_range'),
+    ('insert', (ILIST,), 'insert_ilist'),
+    ('operator=', (ILIST,), 'assign_ilist'),
+    ('operator=', ('amc::FlatSet<int>::vector_type &&',), 'assign_vector'),
+    ('FlatSet', ('const int *', 'const int *', COMP, ALLOC), 'ctor_range'),
+    ('FlatSet', ('const int *', 'const int *', ALLOC), 'ctor_range_alloc'),
+    ('FlatSet', (ILIST, COMP, ALLOC), 'ctor_ilist'),
+    ('FlatSet', (ILIST, ALLOC), 'ctor_ilist_alloc'),
+    ('FlatSet', ('amc::FlatSet<int>::vector_type &&', COMP, ALLOC), 'ctor_vector'),
+]
+TARGETS_P3 = [
+    ('merge', (('re', r'FlatSet<int, std::greater<int>, .*> &'),), 'merge_other'),
+    ('merge', ('amc::FlatSet<int> &',), 'merge'),
+]
+LEVEL = int(os.environ.get('FLATSET2LEAN_LEVEL', '3'))
+if LEVEL >= 2:
+    TARGETS = TARGETS + TARGETS_P2
+if LEVEL >= 3:
+    TARGETS = TARGETS + TARGETS_P3
 
-RESERVED = {'l', 'lt', 'α', 'some', 'none', 'if', 'then', 'else', 'match', 'with', 'let', 'fun', 'def', 'true', 'false'}
+RESERVED = {'l', 'lt', 'α', 'some', 'none', 'if', 'then', 'else', 'match', 'with', 'let', 'fun', 'def', 'true', 'false',
+            'o', 'lt_o', 'eqT', 'ltT', 'lt_default', 'st', 'at', 'from', 'end', 'in', 'do'}
 
 
 # ---------------------------------------------------------------------------------------------------------------------
@@ -83,8 +157,8 @@ def parse_concat(src):
     return objs
 
 
-def clang_dump(include, src_path, flt):
-    cmd = [CLANG, '-std=gnu++17', '-I', include, '-fsyntax-only', '-Xclang', '-ast-dump=json',
+def clang_dump(include, src_path, flt, defines=()):
+    cmd = [CLANG, '-std=gnu++17'] + [f'-D{d}' for d in defines] + ['-I', include, '-fsyntax-only', '-Xclang', '-ast-dump=json',
            '-Xclang', f'-ast-dump-filter={flt}', src_path]
     try:
         p = subprocess.run(cmd, capture_output=True, text=True, timeout=CLANG_TIMEOUT)
@@ -178,19 +252,26 @@ def params_of(m):
 
 class Path:
     def __init__(self):
-        self.lst = 'l'            # Lean term of the current content
+        self.lst = 'l'            # Lean term of the current content of *this
+        self.olst = None          # Lean term of the current content of the other set (two-object members), else None
+        self.cmp = 'lt'           # Lean term of the comparator object stored in *this
+        self.ocmp = None          # ... in the other set
         self.ncalls = 0           # comparator calls made directly on this path
         self.csyms = ()           # symbolic call counts (results of lowerBound / of generated callees)
         self.known = {}           # atomic condition -> bool
         self.derefs = {}          # (list term, index term) -> bound element variable
         self.frames = [{}]        # stack of local-variable frames
         self.nfresh = 0
+        self.cursor = None        # body of a cursor loop only: None (untouched) | 'erase' | 'next'
 
     def copy(self):
-        p = Path()
-        p.lst, p.ncalls, p.csyms = self.lst, self.ncalls, self.csyms
-        p.known = dict(self.known); p.derefs = dict(self.derefs)
-        p.frames = [dict(f) for f in self.frames]; p.nfresh = self.nfresh
+        p = self.__class__.__new__(self.__class__)
+        for k, v in self.__dict__.items():
+            if isinstance(v, dict):
+                v = dict(v)
+            elif isinstance(v, list):
+                v = [dict(f) for f in v]
+            p.__dict__[k] = v
         return p
 
     def calls_term(self):
@@ -198,6 +279,25 @@ class Path:
         if self.ncalls or not parts:
             parts.append(str(self.ncalls))
         return ' + '.join(parts)
+
+    # the two objects of a two-object member: 's' = *this, 'o' = the other set
+    def get_lst(self, who):
+        return self.lst if who == 's' else self.olst
+
+    def set_lst(self, who, t):
+        if who == 's':
+            self.lst = t
+        else:
+            self.olst = t
+
+    def get_cmp(self, who):
+        return self.cmp if who == 's' else self.ocmp
+
+    def set_cmp(self, who, t):
+        if who == 's':
+            self.cmp = t
+        else:
+            self.ocmp = t
 
 
 class Ite:
@@ -224,11 +324,35 @@ class UB:
     def __init__(self, why, line):
         self.why, self.line = why, line
 
+class MatchOpt:
+    """`match term with | none => a | some var => b` on a node handle (an `Option α`)"""
+    def __init__(self, term, var, a, b, line, what='node handle: empty / holding a value'):
+        self.term, self.var, self.a, self.b, self.line, self.what = term, var, a, b, line, what
+
+
+def peel(n):
+    """the expression under parentheses, implicit casts and temporaries (for syntactic recognition only)"""
+    while isinstance(n, dict) and n.get('kind') in ('ParenExpr', 'ImplicitCastExpr', 'MaterializeTemporaryExpr', 'ExprWithCleanups',
+                                                     'CXXBindTemporaryExpr') and len(kids(n)) == 1:
+        n = kids(n)[0]
+    return n
+
+
+def leaves(t):
+    if isinstance(t, Ite):
+        yield from leaves(t.t); yield from leaves(t.f)
+    elif isinstance(t, (MatchIdx, Bind, Let)):
+        yield from leaves(t.sub)
+    elif isinstance(t, MatchOpt):
+        yield from leaves(t.a); yield from leaves(t.b)
+    elif isinstance(t, Leaf):
+        yield t
+
 
 def atom(s):
     """parenthesise a Lean term unless it is atomic: `name`, `name.proj`, `(…)`, `(…).proj`"""
     s = s.strip()
-    if all(ch.isalnum() or ch in '._' for ch in s):
+    if all(ch.isalnum() or ch in '._' for ch in s) or s == '[]':
         return s
     if s.startswith('('):
         d = 0
@@ -260,31 +384,69 @@ def nat_add(a, k):
 
 
 class Translator:
-    def __init__(self, spec):
+    HEADER = os.path.join('amc', 'flatset.hpp')
+    CLASS = 'FlatSet'
+    ITER_KINDS = ()
+
+    def __init__(self, spec, others=()):
         self.spec = spec
-        self.by_id = {}          # decl id -> CXXMethodDecl
+        self.by_id = {}          # decl id -> CXXMethodDecl / CXXConstructorDecl of the instantiation FlatSet<int>
+        self.other_ids = {}      # decl id -> CXXMethodDecl of another specialisation of FlatSet (the `o` of merge<C2>)
         self.targets = {}        # decl id -> lean name
-        self.sigs = {}           # lean name -> (param kinds, return kind)
+        self.sigs = {}           # lean name -> dict(pk=[kinds of the C++ parameters], ret=kind, const=bool, two=bool, extras=[..], ctor=bool)
+        self.aux_defs = []       # auxiliary definitions (lambda bodies, loop bodies) of the function being translated
+        self.extras = []         # extra Lean parameters used by the function being translated (eqT, ltT, lt_default)
+        self.param_names = set()
         bases = spec.get('bases', [])
         if len(bases) != 1:
             raise Unsupported(f'FlatSet is expected to have exactly one base class (the comparator), found {len(bases)}')
         self.comp_type = bases[0]['type']['qualType']
+        fields = [m.get('name') for m in kids(spec) if m.get('kind') == 'FieldDecl']
+        if fields != ['_sortedVector']:
+            raise Unsupported(f'flatset.hpp: the data members of FlatSet are expected to be exactly `_sortedVector`; found {fields} '
+                              f'(the model has no such state)')
+        targs = [qual(a) for a in kids(spec) if a.get('kind') == 'TemplateArgument']
+        if len(targs) != 4:
+            raise Unsupported(f'FlatSet is expected to have four template arguments, found {len(targs)}')
+        self.alloc_type, self.vec_type = targs[2], targs[3]
+        self.irt_fields = None
         for m in kids(spec):
-            if m.get('kind') == 'CXXMethodDecl':
+            if m.get('kind') in ('CXXMethodDecl', 'CXXConstructorDecl'):
                 self.by_id[m['id']] = m
             elif m.get('kind') == 'FunctionTemplateDecl':
                 for c in kids(m):
-                    if c.get('kind') == 'CXXMethodDecl':
+                    if c.get('kind') in ('CXXMethodDecl', 'CXXConstructorDecl'):
                         self.by_id[c['id']] = c
+            elif m.get('kind') == 'CXXRecordDecl' and m.get('name') == 'insert_return_type':
+                self.irt_fields = [c.get('name') for c in kids(m) if c.get('kind') == 'FieldDecl']
+        for sp in others:
+            for m in kids(sp):
+                if m.get('kind') == 'CXXMethodDecl':
+                    self.other_ids[m['id']] = m
         for nm, ptypes, lean in TARGETS:
             found = [m for m in self.by_id.values()
-                     if m.get('name') == nm and has_body(m) and tuple(qual(p) for p in params_of(m)) == ptypes]
+                     if m.get('name') == nm and has_body(m) and self.match_ptypes(m, ptypes)
+                     and (m.get('kind') == 'CXXConstructorDecl') == (nm == self.CLASS)]
+            shown = ', '.join(p if isinstance(p, str) else p[1] for p in ptypes)
             if len(found) != 1:
-                raise Unsupported(f'member FlatSet::{nm}({", ".join(ptypes)}) with a body: expected exactly one, found '
+                raise Unsupported(f'member FlatSet::{nm}({shown}) with a body: expected exactly one, found '
                                   f'{len(found)} (changed set of members)')
-            if not str(found[0].get('_file')).endswith(os.path.join('amc', 'flatset.hpp')):
+            if not str(found[0].get('_file')).endswith(self.HEADER):
                 raise Unsupported(f'member FlatSet::{nm} is defined in {found[0].get("_file")}, not in amc/flatset.hpp')
             self.targets[found[0]['id']] = lean
+
+    @staticmethod
+    def match_ptypes(m, ptypes):
+        ps = [qual(p) for p in params_of(m)]
+        if len(ps) != len(ptypes):
+            return False
+        for a, b in zip(ps, ptypes):
+            if isinstance(b, str):
+                if a != b:
+                    return False
+            elif not re.fullmatch(b[1], a):
+                return False
+        return True
 
     # ---- kinds of C++ types -----------------------------------------------------------------------------------------
     def type_kind(self, ty, n):
@@ -307,14 +469,48 @@ class Translator:
             return ('pair', 'it', 'it')
         if t == 'void':
             return 'void'
+        if t == 'amc::FlatSet<int>::node_type':
+            return 'node'
+        if t == 'amc::FlatSet<int>::insert_return_type':
+            return 'irt'
+        if t == self.comp_type:
+            return 'comp'
+        if t == 'amc::FlatSet<int>':
+            return 'self'
         raise Unsupported(f'{where(n)}: type `{ty}` is outside the translated subset')
+
+    def param_kind(self, p):
+        """kind of a parameter of a translated member (more kinds than for local variables and returned values)"""
+        ty = qual(p)
+        t = ty.replace('const ', '').replace(' &&', '').replace(' &', '').strip()
+        if ty == 'const int *':
+            return 'range'                      # one end of an input range [first, last) (InputIt = const int *)
+        if ty == 'std::initializer_list<value_type>':
+            return 'ilist'
+        if ty == 'amc::FlatSet<int>::vector_type &&':
+            return 'vecval'
+        if ty == 'amc::FlatSet<int>::node_type &&':
+            return 'node'
+        if t == self.alloc_type and ty.startswith('const ') and ty.endswith(' &'):
+            return 'alloc'
+        if t == self.comp_type and ty.startswith('const ') and ty.endswith(' &'):
+            return 'comp'
+        if ty in ('amc::FlatSet<int> &', 'const amc::FlatSet<int> &') or re.fullmatch(r'FlatSet<int, .*> &', ty):
+            return 'other'
+        kd = self.type_kind(ty, p)
+        if kd in ('it', 'elem'):
+            return kd
+        raise Unsupported(f'{where(p)}: parameter `{p.get("name")}` of type `{ty}` is outside the translated subset')
 
     def lean_type(self, kind):
         if isinstance(kind, tuple):
             return f'{self.lean_type(kind[1])} × {self.lean_type(kind[2])}'
-        return {'it': 'Nat', 'n': 'Nat', 'b': 'Bool', 'elem': 'α', 'void': 'Unit'}[kind]
+        return {'it': 'Nat', 'n': 'Nat', 'b': 'Bool', 'elem': 'α', 'void': 'Unit', 'self': 'Unit', 'node': 'Option α',
+                'irt': 'Nat × Bool × Option α'}[kind]
 
     def ret_kind(self, m):
+        if m.get('kind') == 'CXXConstructorDecl':
+            return 'void'
         ty = qual(m)
         return self.type_kind(ty[:ty.index('(')].strip(), m)
 
@@ -343,7 +539,7 @@ class Translator:
         raise Unsupported(f'{where(n)}: a boolean was expected, found {val[0]}')
 
     def need_it(self, v, n, what):
-        if v[0] == 'it':
+        if v[0] in ('it', 'oit'):
             return None
         if v[0] == 'itbad':
             return UB(f'{what} of an iterator before begin() ({v[1]})', line_of(n))
@@ -355,6 +551,28 @@ class Translator:
             raise Unsupported(f'{where(n)}: reference to `{name}`, which is neither a parameter nor a local variable')
         return fr[name]
 
+    def use_extra(self, name):
+        if name not in self.extras:
+            self.extras.append(name)
+
+    @staticmethod
+    def comp_term(v):
+        return v[1] if len(v) > 1 else 'lt'
+
+    @staticmethod
+    def it_who(v):
+        return 'o' if v[0] == 'oit' else 's'
+
+    def cur_self(self, path):
+        return path.frames[-1].get('$self', 's')
+
+    def node_term(self, o, n):
+        if o[0] == 'onone':
+            return 'none'
+        if o[0] == 'osome':
+            return f'some {atom(o[1])}'
+        raise Unsupported(f'{where(n)}: the value of a moved-from node handle is used')
+
     def to_term(self, v, kind, n):
         """Lean term of a returned value of the given kind"""
         if isinstance(kind, tuple):
@@ -362,7 +580,7 @@ class Translator:
                 raise Unsupported(f'{where(n)}: a pair was expected, found {v[0]}')
             return f'({self.to_term(v[1], kind[1], n)}, {self.to_term(v[2], kind[2], n)})'
         if kind == 'it':
-            if v[0] == 'it':
+            if v[0] in ('it', 'oit'):
                 return v[1]
             raise Unsupported(f'{where(n)}: an iterator value was expected, found {v[0]}')
         if kind == 'n':
@@ -382,8 +600,18 @@ class Translator:
         if kind == 'elem':
             if v[0] == 'elem':
                 return v[1]
-        if kind == 'void':
+        if kind in ('void', 'self'):
             return '()'
+        if kind == 'node':
+            if v[0] == 'node':
+                return self.node_term(v[1], n)
+            raise Unsupported(f'{where(n)}: a node handle was expected, found {v[0]}')
+        if kind == 'irt':
+            if v[0] == 'rec' and sorted(v[1]) == sorted(self.irt_fields or []) and self.irt_fields == ['position', 'inserted', 'node']:
+                d = v[1]
+                return (f'({self.to_term(d["position"], "it", n)}, {self.to_term(d["inserted"], "b", n)}, '
+                        f'{self.to_term(d["node"], "node", n)})')
+            raise Unsupported(f'{where(n)}: an insert_return_type {{position, inserted, node}} was expected, found {v[0]}')
         raise Unsupported(f'{where(n)}: cannot return a {v[0]} as {kind}')
 
     def from_term(self, term, kind):
@@ -391,9 +619,67 @@ class Translator:
             return ('pair', self.from_term(f'{term}.1', kind[1]), self.from_term(f'{term}.2', kind[2]))
         if kind == 'b':
             return ('bt', term, True)
-        if kind == 'void':
+        if kind in ('void', 'self'):
             return ('void',)
         return (kind, term)
+
+    # ---- lvalues: a local variable or parameter followed by data-member accesses ---------------------------------------
+    def lvalue_path(self, n):
+        n = peel(n)
+        if n.get('kind') == 'DeclRefExpr' and n.get('referencedDecl', {}).get('kind') in ('VarDecl', 'ParmVarDecl'):
+            return (n['referencedDecl']['name'], ())
+        if n.get('kind') == 'MemberExpr' and len(kids(n)) == 1:
+            b = self.lvalue_path(kids(n)[0])
+            if b is not None:
+                return (b[0], b[1] + (n.get('name'),))
+        return None
+
+    def get_field(self, v, f, n):
+        if v[0] == 'rec' and f in v[1]:
+            return v[1][f]
+        if v[0] == 'node' and f == '_optV':
+            return ('opt', v[1])
+        if v[0] == 'pair' and f == 'first':
+            return v[1]
+        if v[0] == 'pair' and f == 'second':
+            return v[2]
+        raise Unsupported(f'{where(n)}: member access `.{f}` on a {v[0]}')
+
+    def set_field(self, v, fields, new, n):
+        if not fields:
+            if v[0] == 'opt' or new[0] in ('opt', 'nullopt'):
+                if new[0] == 'nullopt':
+                    return ('opt', ('onone',))
+                if new[0] == 'opt' and v[0] == 'opt':
+                    return new
+                raise Unsupported(f'{where(n)}: assignment of a {new[0]} to a {v[0]}')
+            if v[0] == 'it' and new[0] in ('it', 'itbad'):
+                return new
+            if v[0] in self.ITER_KINDS and new[0] in self.ITER_KINDS:
+                return new
+            if v[0] in ('b', 'bt') and new[0] in ('b', 'bt'):
+                return new
+            if v[0] == new[0]:
+                return new
+            if v[0] == 'cursor' and new[0] == 'cur_erase':
+                return v
+            raise Unsupported(f'{where(n)}: assignment of a {new[0]} to a {v[0]}')
+        f = fields[0]
+        if v[0] == 'rec' and f in v[1]:
+            d = dict(v[1])
+            d[f] = self.set_field(d[f], fields[1:], new, n)
+            return ('rec', d)
+        if v[0] == 'node' and f == '_optV' and len(fields) == 1:
+            r = self.set_field(('opt', v[1]), (), new, n)
+            return ('node', r[1])
+        raise Unsupported(f'{where(n)}: assignment to member `.{f}` of a {v[0]}')
+
+    def store(self, path, lp, new, n):
+        """the path after the assignment `lp = new`"""
+        old = self.lookup(path, lp[0], n)
+        p = path.copy()
+        p.frames[-1][lp[0]] = self.set_field(old, lp[1], new, n)
+        return p
 
     # ---- expressions (continuation-passing: k(path, value) -> tree) ---------------------------------------------------
     def eval(self, n, path, k):
@@ -423,13 +709,13 @@ class Translator:
     def e_ImplicitCastExpr(self, n, path, k):
         ck = n.get('castKind')
         c = kids(n)[0]
-        if ck in ('LValueToRValue', 'NoOp', 'UncheckedDerivedToBase', 'DerivedToBase'):
+        if ck in ('LValueToRValue', 'NoOp', 'UncheckedDerivedToBase', 'DerivedToBase', 'UserDefinedConversion'):
             def cont(p, v):
                 if ck in ('DerivedToBase', 'UncheckedDerivedToBase') and v[0] == 'this':
                     t = qual(n).replace('const ', '').strip()
-                    if t != self.comp_type:
+                    if t != self.comp_type and v[1] == 's':
                         raise Unsupported(f'{where(n)}: cast of *this to `{qual(n)}` (only the comparator base `{self.comp_type}` is known)')
-                    return k(p, ('comp',))
+                    return k(p, ('comp', p.get_cmp(v[1]), v[1]))
                 if ck in ('DerivedToBase', 'UncheckedDerivedToBase') and v[0] not in ('vec',):
                     raise Unsupported(f'{where(n)}: derived-to-base cast of a {v[0]}')
                 return k(p, v)
@@ -460,7 +746,7 @@ class Translator:
         return self.eval(kids(n)[0], path, cont)
 
     def e_CXXThisExpr(self, n, path, k):
-        return k(path, ('thisptr',))
+        return k(path, ('thisptr', self.cur_self(path)))
 
     def e_IntegerLiteral(self, n, path, k):
         return k(path, ('int', int(n['value'])))
@@ -474,6 +760,8 @@ class Translator:
     def e_DeclRefExpr(self, n, path, k):
         rd = n.get('referencedDecl', {})
         if rd.get('kind') in ('ParmVarDecl', 'VarDecl'):
+            if rd.get('name') == 'nullopt' and 'nullopt' not in path.frames[-1]:
+                return k(path, ('nullopt',))
             return k(path, self.lookup(path, rd['name'], n))
         raise Unsupported(f'{where(n)}: reference to {rd.get("kind")} `{rd.get("name")}`')
 
@@ -481,13 +769,16 @@ class Translator:
         name = n.get('name')
         def cont(p, v):
             if v[0] in ('thisptr', 'this') and name == '_sortedVector':
-                return k(p, ('vec',))
-            if v[0] == 'pair' and name == 'first':
-                return k(p, v[1])
-            if v[0] == 'pair' and name == 'second':
-                return k(p, v[2])
+                return k(p, ('vec', v[1] if len(v) > 1 else 's'))
+            if v[0] in ('rec', 'node', 'pair'):
+                return k(p, self.get_field(v, name, n))
             raise Unsupported(f'{where(n)}: member access `.{name}` on a {v[0]}')
         return self.eval(kids(n)[0], path, cont)
+
+    def e_InitListExpr(self, n, path, k):
+        if self.type_kind(qual(n), n) != 'irt' or not self.irt_fields or len(kids(n)) != len(self.irt_fields):
+            raise Unsupported(f'{where(n)}: initialiser list for `{qual(n)}`')
+        return self.eval_list(kids(n), path, lambda p, vs: k(p, ('rec', dict(zip(self.irt_fields, vs)))))
 
     def e_UnaryOperator(self, n, path, k):
         op = n.get('opcode')
@@ -509,22 +800,44 @@ class Translator:
         if op == '*':
             def cont(p, v):
                 if v[0] == 'thisptr':
-                    return k(p, ('this',))
+                    return k(p, ('this', v[1] if len(v) > 1 else 's'))
+                if v[0] == 'cursor':
+                    if p.cursor is not None:
+                        raise Unsupported(f'{where(n)}: the loop iterator is dereferenced after it has been advanced')
+                    return k(p, ('elem', 'x'))
                 bad = self.need_it(v, n, 'dereference')
                 if bad:
                     return bad
-                return self.deref(p, v[1], n, k)
+                return self.deref(p, p.get_lst(self.it_who(v)), v[1], n, k)
             return self.eval(c, path, cont)
+        if op in ('++', '--') and not n.get('isPostfix'):
+            lp = self.lvalue_path(c)
+            if lp is not None and not lp[1]:
+                v = self.lookup(path, lp[0], n)
+                if v[0] == 'cursor' and op == '++':
+                    if path.cursor is not None:
+                        raise Unsupported(f'{where(n)}: the loop iterator is advanced twice on a path')
+                    p = path.copy()
+                    p.cursor = 'next'
+                    return k(p, ('void',))
+                if v[0] in ('it', 'oit'):
+                    def cont(p, w):
+                        if w[0] == 'itbad':
+                            return UB(f'`--` moves an iterator before begin() ({w[1]})', line_of(n))
+                        return k(self.store(p, lp, (v[0], w[1]), n), ('void',))
+                    return self.it_offset(path, ('it', v[1]), 1 if op == '++' else -1, n, cont)
+            raise Unsupported(f'{where(n)}: `{op}` on something else than a local iterator variable')
         raise Unsupported(f'{where(n)}: unary operator `{op}` is outside the translated subset')
 
-    def deref(self, path, idx, n, k):
-        key = (path.lst, idx)
+    def deref(self, path, lst, idx, n, k):
+        key = (lst, idx)
         if key in path.derefs:
             return k(path, ('elem', path.derefs[key]))
         p = path.copy()
         var = self.fresh(p, 'x')
         p.derefs[key] = var
-        return MatchIdx(path.lst, idx, var, k(p, ('elem', var)), line_of(n))
+        p.known[f'{idx} < {atom(lst)}.length'] = True
+        return MatchIdx(lst, idx, var, k(p, ('elem', var)), line_of(n))
 
     def it_offset(self, path, v, off, n, k):
         """iterator + integer literal"""
@@ -532,20 +845,20 @@ class Translator:
         if bad:
             return bad
         if off >= 0:
-            return k(path, ('it', nat_add(v[1], off)))
+            return k(path, (v[0], nat_add(v[1], off)))
         m = -off
         cond = f'{v[1]} = 0' if m == 1 else f'{v[1]} < {m}'
         return self.fork(path, cond, line_of(n),
                          lambda p: k(p, ('itbad', f'{v[1]} - {m} with {cond}')),
-                         lambda p: k(p, ('it', nat_sub(v[1], m))),
+                         lambda p: k(p, (v[0], nat_sub(v[1], m))),
                          note=f'iterator - {m}: before begin() on the first arm')
 
     def compare(self, op, a, b, n, path, k):
         for v in (a, b):
-            bad = self.need_it(v, n, 'comparison') if v[0] in ('it', 'itbad') else None
+            bad = self.need_it(v, n, 'comparison') if v[0] in ('it', 'itbad', 'oit') else None
             if bad:
                 return bad
-        if a[0] == 'it' and b[0] == 'it':
+        if a[0] == b[0] and a[0] in ('it', 'oit'):
             x, y = a[1], b[1]
             if op == '==':
                 return k(path, ('b', True)) if x == y else k(path, ('bt', f'{x} = {y}', False))
@@ -586,19 +899,22 @@ class Translator:
             return self.eval(lhs, path, lambda p, a: self.eval(rhs, p, lambda q, b: self.compare(op, a, b, n, q, k)))
         if op in ('+', '-'):
             def cont(p, a, b):
-                if a[0] in ('it', 'itbad') and b[0] == 'int':
+                if a[0] in ('it', 'itbad', 'oit') and b[0] == 'int':
                     return self.it_offset(p, a, b[1] if op == '+' else -b[1], n, k)
+                if op == '-' and a[0] == 'it' and b[0] == 'it' and b[1] == '0':       # it - begin()
+                    return k(p, ('n', a[1]))
+                if op == '+' and a[0] == 'it' and b[0] == 'n':
+                    return k(p, ('it', b[1] if a[1] == '0' else f'{atom(a[1])} + {atom(b[1])}'))
+                if op == '+' and a[0] == 'n' and b[0] == 'n':
+                    return k(p, ('n', f'{atom(a[1])} + {atom(b[1])}'))
                 raise Unsupported(f'{where(n)}: `{op}` on a {a[0]} and a {b[0]}')
             return self.eval(lhs, path, lambda p, a: self.eval(rhs, p, lambda q, b: cont(q, a, b)))
         if op == '=':
-            if lhs.get('kind') != 'DeclRefExpr' or lhs.get('referencedDecl', {}).get('kind') != 'VarDecl':
+            lp = self.lvalue_path(lhs)
+            if lp is None or (not lp[1] and peel(lhs).get('referencedDecl', {}).get('kind') != 'VarDecl'):
                 raise Unsupported(f'{where(n)}: assignment to something else than a local variable')
-            name = lhs['referencedDecl']['name']
             def cont(p, v):
-                self.lookup(p, name, n)
-                p = p.copy()
-                p.frames[-1][name] = v
-                return k(p, v)
+                return k(self.store(p, lp, v, n), v)
             return self.eval(rhs, path, cont)
         raise Unsupported(f'{where(n)}: binary operator `{op}` is outside the translated subset')
 
@@ -613,8 +929,12 @@ class Translator:
             def cont(p, v):
                 if v[0] != 'comp':
                     raise Unsupported(f'{where(n)}: comparator constructed from a {v[0]}')
-                return k(p, v)
+                return k(p, ('comp', self.comp_term(v), None))
             return self.eval(args[0], path, cont)
+        if ty == self.comp_type and not args:
+            # a default-constructed comparator: NOT the comparator object stored in the set
+            self.use_extra('lt_default')
+            return k(path, ('comp', 'lt_default', None))
         if ty.startswith('std::pair<'):
             if len(args) == 2:
                 return self.eval_list(args, path, lambda p, vs: k(p, ('pair', vs[0], vs[1])))
@@ -624,6 +944,45 @@ class Translator:
                         raise Unsupported(f'{where(n)}: pair constructed from a {v[0]}')
                     return k(p, v)
                 return self.eval(args[0], path, cont)
+        if ty == 'amc::FlatSet<int>::node_type':
+            if len(args) == 1:
+                src = peel(args[0])
+                moved = None
+                if src.get('kind') == 'CallExpr' and len(kids(src)) == 2 and \
+                        peel(kids(src)[0]).get('referencedDecl', {}).get('name') == 'move':
+                    moved = self.lvalue_path(kids(src)[1])
+                def cont(p, v):
+                    if v[0] == 'alloc':
+                        return k(p, ('node', ('onone',)))
+                    if v[0] != 'node':
+                        raise Unsupported(f'{where(n)}: node handle constructed from a {v[0]}')
+                    if moved is not None:
+                        # the defaulted move constructor leaves the source optional engaged with a moved-from value
+                        p = self.store(p, moved, ('node', ('omoved',)), n)
+                    return k(p, v)
+                return self.eval(args[0], path, cont)
+            if len(args) == 2:
+                def cont(p, vs):
+                    if vs[0][0] != 'elem' or vs[1][0] != 'alloc':
+                        raise Unsupported(f'{where(n)}: node_type({vs[0][0]}, {vs[1][0]})')
+                    return k(p, ('node', ('osome', vs[0][1])))
+                return self.eval_list(args, path, cont)
+        if ty in ('std::optional<int>', 'std::optional<value_type>') and len(args) == 1:
+            def cont(p, v):
+                if v[0] == 'elem':
+                    return k(p, ('opt', ('osome', v[1])))
+                if v[0] in ('opt', 'nullopt'):
+                    return k(p, v)
+                raise Unsupported(f'{where(n)}: std::optional constructed from a {v[0]}')
+            return self.eval(args[0], path, cont)
+        if ty in ('std::nullopt_t', 'amc::FlatSet<int>::insert_return_type', 'std::initializer_list<value_type>',
+                  'std::initializer_list<int>') and len(args) == 1:
+            want = {'std::nullopt_t': 'nullopt', 'amc::FlatSet<int>::insert_return_type': 'rec'}.get(ty, 'ilist')
+            def cont(p, v):
+                if v[0] != want:
+                    raise Unsupported(f'{where(n)}: `{qual(n)}` constructed from a {v[0]}')
+                return k(p, v)
+            return self.eval(args[0], path, cont)
         raise Unsupported(f'{where(n)}: construction of `{qual(n)}` with {len(args)} argument(s)')
 
     e_CXXConstructExpr = construct
@@ -634,19 +993,144 @@ class Translator:
         callee = c[0]
         while callee.get('kind') == 'ImplicitCastExpr':
             callee = kids(callee)[0]
-        name = callee.get('referencedDecl', {}).get('name')
-        if name != 'operator()' or len(c) != 4:
-            raise Unsupported(f'{where(n)}: call of overloaded operator `{name}` is outside the translated subset')
-        def cont(p, vs):
-            o, a, b = vs
-            if o[0] != 'comp':
-                raise Unsupported(f'{where(n)}: operator() called on a {o[0]} (only the comparator of the set is known)')
-            if a[0] != 'elem' or b[0] != 'elem':
-                raise Unsupported(f'{where(n)}: comparator applied to a {a[0]} and a {b[0]}')
-            p = p.copy()
-            p.ncalls += 1
-            return k(p, ('bt', f'lt {atom(a[1])} {atom(b[1])}', True))
-        return self.eval_list(c[1:], path, cont)
+        rd = callee.get('referencedDecl', {})
+        name = rd.get('name')
+        if name == 'operator()' and len(c) == 4:
+            def cont(p, vs):
+                o, a, b = vs
+                if o[0] != 'comp':
+                    raise Unsupported(f'{where(n)}: operator() called on a {o[0]} (only the comparator of the set is known)')
+                if a[0] != 'elem' or b[0] != 'elem':
+                    raise Unsupported(f'{where(n)}: comparator applied to a {a[0]} and a {b[0]}')
+                p = p.copy()
+                p.ncalls += 1
+                return k(p, ('bt', f'{atom(self.comp_term(o))} {atom(a[1])} {atom(b[1])}', True))
+            return self.eval_list(c[1:], path, cont)
+        if name == 'operator*' and len(c) == 2:
+            def cont(p, v):
+                if v[0] != 'opt':
+                    raise Unsupported(f'{where(n)}: overloaded `*` applied to a {v[0]}')
+                if v[1][0] == 'osome':
+                    return k(p, ('elem', v[1][1]))
+                if v[1][0] == 'onone':
+                    return UB('`*` of an empty std::optional (node handle without a value)', line_of(n))
+                return UB('`*` of a moved-from node handle', line_of(n))
+            return self.eval(c[1], path, cont)
+        if name == 'operator=' and len(c) == 3:
+            return self.assign_op(n, c[1], c[2], path, k)
+        if name in ('operator==', 'operator<') and len(c) == 3:
+            def cont(p, vs):
+                a, b = vs
+                if a[0] == 'vec' and b[0] == 'vec':
+                    # operator== / operator< of the underlying vector: std::equal on equal sizes / std::lexicographical_compare,
+                    # both with the operators of the ELEMENT type (not the comparator of the set)
+                    ex, fn = ('eqT', 'vecEq') if name == 'operator==' else ('ltT', 'vecLess')
+                    self.use_extra(ex)
+                    return k(p, ('bt', f'{fn} {ex} {atom(p.get_lst(a[1]))} {atom(p.get_lst(b[1]))}', True))
+                if a[0] == 'this' and b[0] == 'this' and rd.get('id') in self.targets:
+                    return self.call_two(n, self.targets[rd['id']], a[1], b[1], p, k)
+                raise Unsupported(f'{where(n)}: `{name}` applied to a {a[0]} and a {b[0]}')
+            return self.eval_list(c[1:], path, cont)
+        raise Unsupported(f'{where(n)}: call of overloaded operator `{name}` is outside the translated subset')
+
+    def assign_op(self, n, lhs, rhs, path, k):
+        """an overloaded `operator=`: optional = nullopt / optional, std::tie(a, b) = pair, _sortedVector = vector&&"""
+        l = peel(lhs)
+        if l.get('kind') == 'CallExpr' and peel(kids(l)[0]).get('referencedDecl', {}).get('name') == 'tie':
+            lps = [self.lvalue_path(a) for a in kids(l)[1:]]
+            if len(lps) != 2 or any(lp is None for lp in lps):
+                raise Unsupported(f'{where(n)}: std::tie of something else than two variables / data members')
+            def cont(p, v):
+                if v[0] != 'pair':
+                    raise Unsupported(f'{where(n)}: std::tie(…) = {v[0]}')
+                p = self.store(p, lps[0], v[1], n)
+                p = self.store(p, lps[1], v[2], n)
+                return k(p, ('void',))
+            return self.eval(rhs, path, cont)
+        lp = self.lvalue_path(l)
+        if lp is not None:
+            def cont(p, v):
+                if v[0] not in ('opt', 'nullopt') and v[0] not in self.ITER_KINDS:
+                    raise Unsupported(f'{where(n)}: overloaded assignment of a {v[0]}')
+                return k(self.store(p, lp, v, n), ('void',))
+            return self.eval(rhs, path, cont)
+        def on_lhs(p, lv):
+            if lv[0] != 'vec':
+                raise Unsupported(f'{where(n)}: overloaded assignment to a {lv[0]}')
+            def cont(q, v):
+                if v[0] != 'vecval':
+                    raise Unsupported(f'{where(n)}: assignment of a {v[0]} to the underlying vector')
+                q = q.copy()
+                q.set_lst(lv[1], v[1])
+                return k(q, ('void',))
+            return self.eval(rhs, p, cont)
+        return self.eval(lhs, path, on_lhs)
+
+    def e_LambdaExpr(self, n, path, k):
+        """a lambda `[&c…](const_reference a, const_reference b) { return …; }` passed to a library algorithm: its body is
+        executed symbolically on its own and emitted as an auxiliary Bool-valued definition"""
+        c = kids(n)
+        rec = [x for x in c if x.get('kind') == 'CXXRecordDecl']
+        body = [x for x in c if x.get('kind') == 'CompoundStmt']
+        if len(rec) != 1 or len(body) != 1:
+            raise Unsupported(f'{where(n)}: lambda expression of an unknown shape')
+        ops = [m for m in kids(rec[0]) if m.get('kind') == 'CXXMethodDecl' and m.get('name') == 'operator()']
+        if len(ops) != 1:
+            raise Unsupported(f'{where(n)}: lambda without a single operator()')
+        ps = params_of(ops[0])
+        if len(ps) != 2 or any(self.type_kind(qual(q), q) != 'elem' for q in ps) or self.ret_kind(ops[0]) != 'b':
+            raise Unsupported(f'{where(n)}: only a binary predicate on elements is known as a lambda')
+        caps = [x for x in c if x.get('kind') == 'DeclRefExpr']
+        frame = {}
+        outer = None
+        for cp in caps:
+            nm = cp.get('referencedDecl', {}).get('name')
+            v = self.lookup(path, nm, cp)
+            if v[0] != 'comp' or outer is not None:
+                raise Unsupported(f'{where(cp)}: lambda capture `{nm}` of a {v[0]} (only one capture, of a comparator, is known)')
+            outer = self.comp_term(v)
+            frame[nm] = ('comp', 'lt', None)          # inside the auxiliary definition the captured comparator is called `lt`
+        names = []
+        for q in ps:
+            nm = q.get('name')
+            lnm = nm + '_' if nm in RESERVED else nm
+            names.append(lnm)
+            frame[nm] = ('elem', lnm)
+        sub = Path()
+        sub.frames = [frame]
+        saved = self.param_names
+        self.param_names = set(names)
+        def kret(p, v):
+            return Leaf(None, self.to_term(v, 'b', n), None, None)
+        def no_fall(p):
+            raise Unsupported(f'{where(n)}: control reaches the end of the lambda')
+        tree = self.exec_block(body, sub, no_fall, kret)
+        self.param_names = saved
+        for lf in self.walk(tree):
+            if isinstance(lf, (UB, MatchIdx, Bind, MatchOpt)):
+                raise Unsupported(f'{where(n)}: the lambda body does more than comparing its arguments')
+        lines = self.emit(tree, 1)
+        uses_default = any('lt_default' in ln for ln in lines)
+        name = f'{self.cur_lean}_pred'
+        if name in self.aux_names:
+            raise Unsupported(f'{where(n)}: more than one lambda in a member')
+        self.aux_names.append(name)
+        sig = f'def {name} (lt : α → α → Bool)' + (' (lt_default : α → α → Bool)' if uses_default else '') + \
+              ''.join(f' ({nm} : α)' for nm in names) + ' : Bool :='
+        what = f'capturing the comparator `{caps[0].get("referencedDecl", {}).get("name")}`, here `lt`' if caps else 'capturing nothing'
+        doc = (f'/-- flatset.hpp:{line_of(n)} the lambda passed to a library algorithm in `{self.cur_cpp}` ({what}); '
+               f'comparator calls are not counted -/')
+        self.aux_defs.append('\n'.join([doc, sig] + lines) + '\n')
+        return k(path, ('pred', f'{name} {atom(outer if outer is not None else path.cmp)}' + (' lt_default' if uses_default else '')))
+
+    def walk(self, t):
+        yield t
+        if isinstance(t, Ite):
+            yield from self.walk(t.t); yield from self.walk(t.f)
+        elif isinstance(t, (MatchIdx, Bind, Let)):
+            yield from self.walk(t.sub)
+        elif isinstance(t, MatchOpt):
+            yield from self.walk(t.a); yield from self.walk(t.b)
 
     def e_CallExpr(self, n, path, k):
         c = kids(n)
@@ -660,6 +1144,12 @@ class Translator:
         args = c[1:]
         if name in ('forward', 'move') and len(args) == 1:
             return self.eval(args[0], path, k)
+        if name == 'make_move_iterator' and len(args) == 1:
+            def cont(p, v):
+                if v[0] not in ('it', 'oit'):
+                    raise Unsupported(f'{where(n)}: std::make_move_iterator of a {v[0]}')
+                return k(p, v)
+            return self.eval(args[0], path, cont)
         if name in ('next', 'prev') and len(args) == 2:
             def cont(p, vs):
                 it, d = vs
@@ -676,15 +1166,62 @@ class Translator:
                     bad = self.need_it(it, n, f'std::{name}')
                     if bad:
                         return bad
+                if first[0] != 'it' or last[0] != 'it':
+                    raise Unsupported(f'{where(n)}: std::{name} on a range of the other set')
                 if val[0] != 'elem' or comp[0] != 'comp':
                     raise Unsupported(f'{where(n)}: std::{name}(…, {val[0]}, {comp[0]})')
                 p = p.copy()
                 var = self.fresh(p, 'r')
                 ln = last[1] if first[1] == '0' else f'{atom(last[1])} - {atom(first[1])}'
                 fn = 'Sets.lowerBound' if name == 'lower_bound' else 'Sets.upperBound'
-                term = f'{fn} lt {atom(p.lst)} {atom(val[1])} {atom(first[1])} {atom(ln)}'
+                term = f'{fn} {atom(self.comp_term(comp))} {atom(p.lst)} {atom(val[1])} {atom(first[1])} {atom(ln)}'
                 p.csyms = p.csyms + (f'{var}.2',)
                 return Let(var, term, k(p, ('it', f'{var}.1')), line_of(n))
+            return self.eval_list(args, path, cont)
+        if name in ('stable_sort', 'sort') and len(args) == 3:
+            def cont(p, vs):
+                first, last, comp = vs
+                if first[0] != 'it' or last[0] != 'it' or comp[0] != 'comp':
+                    raise Unsupported(f'{where(n)}: std::{name}({first[0]}, {last[0]}, {comp[0]})')
+                if last[1] != f'{atom(p.lst)}.length':
+                    raise Unsupported(f'{where(n)}: std::{name} on a range that does not end at end() of the underlying vector')
+                if name == 'sort':
+                    raise Unsupported(f'{where(n)}: std::sort is not a stable sort: equivalent elements may be reordered, so which of them '
+                                      f'survives eraseDuplicates() is unspecified; there is no list function for it (the model inserts in input order)')
+                p = p.copy()
+                p.lst = f'stableSortTail {atom(self.comp_term(comp))} {atom(p.lst)} {atom(first[1])}'
+                return k(p, ('void',))
+            return self.eval_list(args, path, cont)
+        if name == 'inplace_merge' and len(args) == 4:
+            def cont(p, vs):
+                first, mid, last, comp = vs
+                if first[0] != 'it' or mid[0] != 'it' or last[0] != 'it' or comp[0] != 'comp':
+                    raise Unsupported(f'{where(n)}: std::inplace_merge({first[0]}, {mid[0]}, {last[0]}, {comp[0]})')
+                if first[1] != '0' or last[1] != f'{atom(p.lst)}.length':
+                    raise Unsupported(f'{where(n)}: std::inplace_merge on something else than [begin(), mid, end()) of the underlying vector')
+                p = p.copy()
+                p.lst = f'inplaceMerge {atom(self.comp_term(comp))} {atom(p.lst)} {atom(mid[1])}'
+                return k(p, ('void',))
+            return self.eval_list(args, path, cont)
+        if name == 'unique' and len(args) == 3:
+            def cont(p, vs):
+                first, last, pred = vs
+                if first[0] != 'it' or last[0] != 'it' or pred[0] != 'pred':
+                    raise Unsupported(f'{where(n)}: std::unique({first[0]}, {last[0]}, {pred[0]})')
+                if first[1] != '0' or last[1] != f'{atom(p.lst)}.length':
+                    raise Unsupported(f'{where(n)}: std::unique on something else than [begin(), end()) of the underlying vector')
+                return k(p, ('uniq', pred[1], p.lst))
+            return self.eval_list(args, path, cont)
+        if name == 'swap' and len(args) == 2:
+            def cont(p, vs):
+                a, b = vs
+                if a[0] != 'comp' or b[0] != 'comp' or len(a) < 3 or len(b) < 3 or {a[2], b[2]} != {'s', 'o'}:
+                    raise Unsupported(f'{where(n)}: std::swap of something else than the comparator objects of the two sets')
+                p = p.copy()
+                x, y = p.get_cmp(a[2]), p.get_cmp(b[2])
+                p.set_cmp(a[2], y)
+                p.set_cmp(b[2], x)
+                return k(p, ('void',))
             return self.eval_list(args, path, cont)
         raise Unsupported(f'{where(n)}: call of function `{name}` with {len(args)} argument(s) is outside the translated subset')
 
@@ -697,80 +1234,226 @@ class Translator:
         args = c[1:]
         def on_obj(p, obj):
             if obj[0] in ('thisptr', 'this'):
-                return self.call_member(n, me, name, args, p, k)
+                return self.call_member(n, me, name, args, p, k, obj[1] if len(obj) > 1 else 's')
             if obj[0] == 'vec':
-                return self.eval_list(args, p, lambda q, vs: self.vec_prim(n, name, vs, q, k))
+                who = obj[1] if len(obj) > 1 else 's'
+                return self.eval_list(args, p, lambda q, vs: self.vec_prim(n, name, vs, q, k, who))
+            if obj[0] == 'node' and not args and name in ('operator bool', 'empty'):
+                if obj[1][0] == 'omoved':
+                    raise Unsupported(f'{where(n)}: `{name}` of a moved-from node handle')
+                has = obj[1][0] == 'osome'
+                return k(p, ('b', has if name == 'operator bool' else not has))
+            if obj[0] == 'ilist' and not args and name in ('begin', 'end', 'size'):
+                if name == 'begin':
+                    return k(p, ('rit', obj[1], '0'))
+                if name == 'end':
+                    return k(p, ('rit', obj[1], f'{atom(obj[1])}.length'))
+                return k(p, ('n', f'{atom(obj[1])}.length'))
             raise Unsupported(f'{where(n)}: member call `.{name}` on a {obj[0]}')
         return self.eval(kids(me)[0], path, on_obj)
 
-    def vec_prim(self, n, name, vs, path, k):
-        """members of the underlying vector"""
+    @staticmethod
+    def sub_range(lst, first, last):
+        """the Lean list of the range [first, last) of lst"""
+        t = lst
+        if last != f'{atom(lst)}.length':
+            t = f'{atom(t)}.take {atom(last)}'
+        if first != '0':
+            t = f'{atom(t)}.drop {atom(first)}'
+        return t
+
+    def vec_prim(self, n, name, vs, path, k, who='s'):
+        """members of the underlying vector (of *this or of the other set)"""
+        lst = path.get_lst(who)
+        itk = 'it' if who == 's' else 'oit'
+        if self.mode == 'cursor_step' and who == 'o':
+            if name == 'erase' and len(vs) == 1 and vs[0][0] == 'cursor':
+                if path.cursor is not None:
+                    raise Unsupported(f'{where(n)}: the loop iterator is advanced twice on a path')
+                p = path.copy()
+                p.cursor = 'erase'
+                return k(p, ('cur_erase',))
+            raise Unsupported(f'{where(n)}: member `{name}` of the vector of the other set is outside the recognised loop shape '
+                              f'(only `it = o._sortedVector.erase(it)`)')
+        if lst is None:
+            raise Unsupported(f'{where(n)}: the underlying vector is used before it is initialised')
         if name in ('begin', 'cbegin') and not vs:
-            return k(path, ('it', '0'))
+            return k(path, (itk, '0'))
         if name in ('end', 'cend') and not vs:
-            return k(path, ('it', f'{atom(path.lst)}.length'))
+            return k(path, (itk, f'{atom(lst)}.length'))
         if name == 'empty' and not vs:
-            return k(path, ('bt', f'{atom(path.lst)}.length = 0', False))
+            return k(path, ('bt', f'{atom(lst)}.length = 0', False))
         if name == 'size' and not vs:
-            return k(path, ('n', f'{atom(path.lst)}.length'))
+            return k(path, ('n', f'{atom(lst)}.length'))
+        if name == 'get_allocator' and not vs:
+            return k(path, ('alloc',))
         if name == 'back' and not vs:
-            return self.deref(path, f'{atom(path.lst)}.length - 1', n, k)
+            return self.deref(path, lst, f'{atom(lst)}.length - 1', n, k)
         if name == 'front' and not vs:
-            return self.deref(path, '0', n, k)
-        if name == 'insert' and len(vs) == 2 and vs[0][0] in ('it', 'itbad') and vs[1][0] == 'elem':
+            return self.deref(path, lst, '0', n, k)
+        if name == 'insert' and len(vs) == 2 and vs[0][0] in (itk, 'itbad') and vs[1][0] == 'elem':
             bad = self.need_it(vs[0], n, '_sortedVector.insert')
             if bad:
                 return bad
             p = path.copy()
-            p.lst = f'{atom(p.lst)}.insertIdx {atom(vs[0][1])} {atom(vs[1][1])}'
-            return k(p, ('it', vs[0][1]))
-        if name == 'erase' and len(vs) == 1 and vs[0][0] in ('it', 'itbad'):
+            p.set_lst(who, f'{atom(lst)}.insertIdx {atom(vs[0][1])} {atom(vs[1][1])}')
+            return k(p, (itk, vs[0][1]))
+        if name == 'insert' and len(vs) == 3 and vs[0][0] == itk and vs[1][0] == vs[2][0] and vs[1][0] in ('rit', 'it', 'oit'):
+            # insert(pos, first, last)
+            at_end = vs[0][1] == f'{atom(lst)}.length'
+            if vs[1][0] == 'rit':
+                if vs[1][1] != vs[2][1]:
+                    raise Unsupported(f'{where(n)}: range insertion from two different input ranges')
+                src = vs[1][1]
+            else:
+                sw = self.it_who(vs[1])
+                if sw == who:
+                    raise Unsupported(f'{where(n)}: range insertion of a vector into itself')
+                src = path.get_lst(sw)
+            sub = atom(self.sub_range(src, vs[1][2] if vs[1][0] == "rit" else vs[1][1], vs[2][2] if vs[2][0] == "rit" else vs[2][1]))
+            def go1(p):
+                p = p.copy()
+                if at_end:
+                    p.set_lst(who, f'{atom(lst)} ++ {sub}')
+                else:
+                    p.set_lst(who, f'{atom(lst)}.take {atom(vs[0][1])} ++ {sub} ++ {atom(lst)}.drop {atom(vs[0][1])}')
+                return k(p, (itk, vs[0][1]))
+            def go(p):
+                if at_end:
+                    return go1(p)
+                return self.fork(p, f'{vs[0][1]} ≤ {atom(lst)}.length', line_of(n), go1,
+                                 lambda q: UB('range insertion at a position after end()', None), note='range insert: pos <= end()')
+            if vs[1][0] == 'rit':
+                return go(path)
+            a, b = vs[1][1], vs[2][1]
+            return self.fork(path, f'{a} ≤ {b}', line_of(n),
+                             lambda p: self.fork(p, f'{b} ≤ {atom(src)}.length', line_of(n), go,
+                                                 lambda q: UB('range insertion from a range that ends after end()', None), note='range insert: last <= end()'),
+                             lambda p: UB('range insertion from a range with last before first', None), note='range insert: first <= last')
+        if name == 'erase' and len(vs) == 1 and vs[0][0] in (itk, 'itbad'):
             bad = self.need_it(vs[0], n, '_sortedVector.erase')
             if bad:
                 return bad
+            def go(p):
+                p = p.copy()
+                p.set_lst(who, f'{atom(lst)}.eraseIdx {atom(vs[0][1])}')
+                return k(p, (itk, vs[0][1]))
+            return self.fork(path, f'{vs[0][1]} < {atom(lst)}.length', line_of(n), go,
+                             lambda p: UB('_sortedVector.erase of an iterator outside [begin, end)', None), note='_sortedVector.erase')
+        if name == 'erase' and len(vs) == 2 and vs[0][0] == 'uniq' and vs[1][0] == itk:
+            if vs[0][2] != lst or vs[1][1] != f'{atom(lst)}.length':
+                raise Unsupported(f'{where(n)}: the result of std::unique is used otherwise than in `erase(std::unique(…), end())`')
             p = path.copy()
-            p.lst = f'{atom(p.lst)}.eraseIdx {atom(vs[0][1])}'
-            return k(p, ('it', vs[0][1]))
+            p.set_lst(who, f'uniqueBy {atom(vs[0][1])} {atom(lst)}')
+            return k(p, ('void',))
+        if name == 'erase' and len(vs) == 2 and vs[0][0] in (itk, 'itbad') and vs[1][0] in (itk, 'itbad'):
+            for v in vs:
+                bad = self.need_it(v, n, '_sortedVector.erase')
+                if bad:
+                    return bad
+            a, b = vs[0][1], vs[1][1]
+            def go(p):
+                p = p.copy()
+                p.set_lst(who, f'{atom(lst)}.take {atom(a)} ++ {atom(lst)}.drop {atom(b)}')
+                return k(p, (itk, a))
+            return self.fork(path, f'{a} ≤ {b}', line_of(n),
+                             lambda p: self.fork(p, f'{b} ≤ {atom(lst)}.length', line_of(n), go,
+                                                 lambda q: UB('_sortedVector.erase of a range that ends after end()', None), note='_sortedVector.erase: last <= end()'),
+                             lambda p: UB('_sortedVector.erase of a range with last before first', None), note='_sortedVector.erase: first <= last')
         if name == 'push_back' and len(vs) == 1 and vs[0][0] == 'elem':
             p = path.copy()
-            p.lst = f'{atom(p.lst)} ++ [{vs[0][1]}]'
+            p.set_lst(who, f'{atom(lst)} ++ [{vs[0][1]}]')
+            return k(p, ('void',))
+        if name == 'clear' and not vs:
+            p = path.copy()
+            p.set_lst(who, '[]')
+            return k(p, ('void',))
+        if name == 'swap' and len(vs) == 1 and vs[0][0] == 'vec' and vs[0][1] != who:
+            p = path.copy()
+            other = vs[0][1]
+            x, y = p.get_lst(who), p.get_lst(other)
+            p.set_lst(who, y)
+            p.set_lst(other, x)
             return k(p, ('void',))
         raise Unsupported(f'{where(n)}: vector member `{name}` with argument kinds ({", ".join(v[0] for v in vs)}) is outside the translated subset')
 
-    def call_member(self, n, me, name, args, path, k):
+    def conv_args(self, n, name, pk, vs, path, who):
+        """Lean argument terms of a call of a generated function, or a UB node"""
+        if len(vs) != len(pk):
+            raise Unsupported(f'{where(n)}: call of `{name}` with {len(vs)} arguments')
+        terms = []
+        i = 0
+        while i < len(pk):
+            v, kd = vs[i], pk[i]
+            if kd == 'it':
+                bad = self.need_it(v, n, f'argument of {name}')
+                if bad:
+                    return bad
+                if self.it_who(v) != who:
+                    raise Unsupported(f'{where(n)}: an iterator of the other set is passed to `{name}`')
+                terms.append(atom(v[1]))
+            elif kd == 'elem':
+                terms.append(atom(self.to_term(v, 'elem', n)))
+            elif kd == 'range':
+                if i + 1 >= len(pk) or pk[i + 1] != 'range' or v[0] != 'rit' or vs[i + 1][0] != 'rit' or v[1] != vs[i + 1][1]:
+                    raise Unsupported(f'{where(n)}: call of `{name}` with something else than an input range')
+                terms.append(atom(self.sub_range(v[1], v[2], vs[i + 1][2])))
+                i += 1
+            elif kd == 'ilist':
+                if v[0] != 'ilist':
+                    raise Unsupported(f'{where(n)}: call of `{name}` with a {v[0]} for an initializer_list')
+                terms.append(atom(v[1]))
+            elif kd == 'vecval':
+                if v[0] != 'vecval':
+                    raise Unsupported(f'{where(n)}: call of `{name}` with a {v[0]} for a vector')
+                terms.append(atom(v[1]))
+            elif kd == 'comp':
+                if v[0] != 'comp':
+                    raise Unsupported(f'{where(n)}: call of `{name}` with a {v[0]} for a comparator')
+                terms.append(atom(self.comp_term(v)))
+            elif kd == 'alloc':
+                if v[0] != 'alloc':
+                    raise Unsupported(f'{where(n)}: call of `{name}` with a {v[0]} for an allocator')
+            else:
+                raise Unsupported(f'{where(n)}: call of `{name}`: parameter kind {kd} cannot be passed')
+            i += 1
+        return terms
+
+    def call_member(self, n, me, name, args, path, k, who='s'):
         mid = me.get('referencedMemberDecl')
-        decl = self.by_id.get(mid)
+        decl = self.by_id.get(mid) or self.other_ids.get(mid)
         if decl is None:
             raise Unsupported(f'{where(n)}: call of FlatSet member `{name}`, whose declaration is not in the instantiation')
         if mid in self.targets:
             lean = self.targets[mid]
-            pk = [self.type_kind(qual(p), p) for p in params_of(decl)]
-            rk = self.ret_kind(decl)
+            if lean not in self.sigs:
+                raise Unsupported(f'{where(n)}: `{name}` is called before it is generated (order of TARGETS)')
+            sg = self.sigs[lean]
+            if sg['two'] or sg['ctor']:
+                raise Unsupported(f'{where(n)}: call of the two-object member / constructor `{name}` as a member function')
             def cont(p, vs):
-                if len(vs) != len(pk):
-                    raise Unsupported(f'{where(n)}: call of `{name}` with {len(vs)} arguments')
-                terms = []
-                for v, kd in zip(vs, pk):
-                    if kd == 'it':
-                        bad = self.need_it(v, n, f'argument of {name}')
-                        if bad:
-                            return bad
-                    terms.append(atom(self.to_term(v, kd, n)))
+                terms = self.conv_args(n, name, sg['pk'], vs, p, who)
+                if isinstance(terms, UB):
+                    return terms
+                for ex in sg['extras']:
+                    self.use_extra(ex)
                 p = p.copy()
                 var = self.fresh(p, 'r')
-                call = f'{lean} lt {atom(p.lst)} ' + ' '.join(terms)
-                if self.is_const(decl):
-                    if lean not in self.sigs:
-                        raise Unsupported(f'{where(n)}: `{name}` is called before it is generated (order of TARGETS)')
+                call = ' '.join([lean, atom(p.get_cmp(who)), atom(p.get_lst(who))] + terms + sg['extras'])
+                if who == 'o' and sg['ret'] == 'it':
+                    raise Unsupported(f'{where(n)}: `{name}` called on the other set returns an iterator')
+                if sg['const']:
                     p.csyms = p.csyms + (f'{var}.2',)
-                    return Bind(call.strip(), var, k(p, self.from_term(f'{var}.1', rk)), line_of(n))
-                p.lst = f'{var}.1'
+                    return Bind(call.strip(), var, k(p, self.from_term(f'{var}.1', sg['ret'])), line_of(n))
+                p.set_lst(who, f'{var}.1')
                 p.csyms = p.csyms + (f'{var}.2.2',)
-                return Bind(call.strip(), var, k(p, self.from_term(f'{var}.2.1', rk)), line_of(n))
+                return Bind(call.strip(), var, k(p, self.from_term(f'{var}.2.1', sg['ret'])), line_of(n))
             return self.eval_list(args, path, cont)
         # inline
         if not has_body(decl):
             raise Unsupported(f'{where(n)}: call of FlatSet member `{name}` without a visible body')
+        if not str(decl.get('_file')).endswith(self.HEADER):
+            raise Unsupported(f'{where(n)}: member `{name}` is defined in {decl.get("_file")}, not in amc/flatset.hpp')
         if len(path.frames) > 8:
             raise Unsupported(f'{where(n)}: inlining depth exceeded at `{name}`')
         ps = params_of(decl)
@@ -778,13 +1461,31 @@ class Translator:
             raise Unsupported(f'{where(n)}: call of `{name}` with {len(args)} arguments for {len(ps)} parameters')
         def cont(p, vs):
             p = p.copy()
-            p.frames.append({q['name']: v for q, v in zip(ps, vs)})
+            fr = {q['name']: v for q, v in zip(ps, vs)}
+            if who != 's':
+                fr['$self'] = who
+            p.frames.append(fr)
             def kret(q, v):
                 q = q.copy()
                 q.frames.pop()
                 return k(q, v)
             return self.exec_block([body_of(decl)], p, lambda q: self.fall_off(decl, q, kret), kret)
         return self.eval_list(args, path, cont)
+
+    def call_two(self, n, lean, a, b, path, k):
+        """call of a generated const two-object member `a.f(b)` (a, b in {'s', 'o'})"""
+        if lean not in self.sigs:
+            raise Unsupported(f'{where(n)}: `{lean}` is called before it is generated (order of TARGETS)')
+        sg = self.sigs[lean]
+        if not (sg['two'] and sg['const'] and sg['pk'] == ['other']) or a == b:
+            raise Unsupported(f'{where(n)}: call of `{lean}` between the two sets')
+        for ex in sg['extras']:
+            self.use_extra(ex)
+        p = path.copy()
+        var = self.fresh(p, 'r')
+        call = ' '.join([lean, atom(p.get_cmp(a)), atom(p.get_lst(a)), atom(p.get_cmp(b)), atom(p.get_lst(b))] + sg['extras'])
+        p.csyms = p.csyms + (f'{var}.2',)
+        return Bind(call, var, k(p, self.from_term(f'{var}.1', sg['ret'])), line_of(n))
 
     @staticmethod
     def is_const(decl):
@@ -853,50 +1554,381 @@ class Translator:
             if not c:
                 return kret(path, ('void',))
             return self.eval(c[0], path, kret)
-        if kind in ('ForStmt', 'WhileStmt', 'DoStmt', 'CXXForRangeStmt', 'SwitchStmt', 'BreakStmt', 'ContinueStmt',
+        if kind in ('ForStmt', 'WhileStmt'):
+            return self.loop(s, path, after)
+        if kind == 'BreakStmt' and self.in_loop_body:
+            return self.kbreak(path)
+        if kind in ('DoStmt', 'CXXForRangeStmt', 'SwitchStmt', 'BreakStmt', 'ContinueStmt',
                     'GotoStmt', 'CXXTryStmt', 'CXXThrowExpr'):
-            raise Unsupported(f'{where(s)}: statement kind {kind} is outside the translated subset (loop-free code only)')
+            raise Unsupported(f'{where(s)}: statement kind {kind} is outside the translated subset')
         if self.is_assert(s):
             return after(path)
         # expression statement
         return self.eval(s, path, lambda p, v: after(p))
 
+    in_loop_body = False
+    mode = 'member'
+
+    def loop(self, s, path, after):
+        if self.mode != 'member' or len(path.frames) != 1:
+            raise Unsupported(f'{where(s)}: a loop inside a loop body / an inlined member is outside the translated subset')
+        if self.aux_names and any(a.endswith('_step') for a in self.aux_names):
+            raise Unsupported(f'{where(s)}: more than one loop in a member')
+        if s.get('kind') == 'ForStmt':
+            return self.cursor_loop(s, path, after)
+        return self.while_loop(s, path, after)
+
+    def cursor_loop(self, s, path, after):
+        """`for (miterator it = o.mbegin(); it != o.mend();) BODY` where every path of BODY ends with exactly one of
+        `it = o._sortedVector.erase(it)` / `++it` and uses `it` only as `*it`: a fold of BODY over the elements of `o`.
+        BODY becomes `<member>_step` (content, element) -> (content, erased from o?, calls); the loop is `foldErase`."""
+        c = s.get('inner', [])
+        if len(c) != 5 or path.olst is None:
+            raise Unsupported(f'{where(s)}: for statement of an unknown shape')
+        init, condvar, cond, inc, body = c
+        if not (isinstance(init, dict) and init.get('kind') == 'DeclStmt' and len(kids(init)) == 1
+                and kids(init)[0].get('kind') == 'VarDecl' and len(kids(kids(init)[0])) == 1):
+            raise Unsupported(f'{where(s)}: loop whose initialisation is not the declaration of one iterator')
+        if (isinstance(condvar, dict) and condvar) or (isinstance(inc, dict) and inc):
+            raise Unsupported(f'{where(s)}: loop with a condition variable / an increment expression (only the loop advancing its '
+                              f'iterator in the body is recognised)')
+        itname = kids(init)[0]['name']
+        if path.olst != 'o' or path.lst != 'l':
+            raise Unsupported(f'{where(s)}: the sets are modified before the loop')
+        live = [nm for nm, v in path.frames[-1].items() if v[0] not in ('this', 'alloc')]
+        if live:
+            raise Unsupported(f'{where(s)}: local variables / parameters {live} are live at the loop')
+        def chk_init(p, v):
+            if v != ('oit', '0'):
+                raise Unsupported(f'{where(s)}: the loop iterator does not start at begin() of the other set')
+            if not (isinstance(cond, dict) and cond.get('kind') == 'BinaryOperator' and cond.get('opcode') == '!='
+                    and self.lvalue_path(kids(cond)[0]) == (itname, ())):
+                raise Unsupported(f'{where(s)}: loop whose condition is not `{itname} != o.mend()`')
+            def chk_end(q, w):
+                if w != ('oit', 'o.length'):
+                    raise Unsupported(f'{where(s)}: loop whose condition is not `{itname} != o.mend()`')
+                return self.cursor_loop2(s, body, itname, q, after)
+            return self.eval(kids(cond)[1], p, chk_end)
+        return self.eval(kids(kids(init)[0])[0], path, chk_init)
+
+    def cursor_loop2(self, s, body, itname, path, after):
+        name = f'{self.cur_lean}_step'
+        self.aux_names.append(name)
+        sub = Path()
+        sub.olst, sub.ocmp = 'o', 'lt_o'
+        sub.frames = [dict(path.frames[-1])]
+        sub.frames[-1][itname] = ('cursor',)
+        saved = (self.param_names, self.mode)
+        self.param_names, self.mode = {'x'}, 'cursor_step'
+        def kend(p):
+            if p.cursor is None:
+                raise Unsupported(f'{where(s)}: a path of the loop body does not advance the loop iterator')
+            if p.olst != 'o' or p.cmp != 'lt' or p.ocmp != 'lt_o':
+                raise Unsupported(f'{where(s)}: the loop body modifies the other set otherwise than by `o._sortedVector.erase(it)`')
+            return Leaf(p.lst, 'true' if p.cursor == 'erase' else 'false', p.calls_term(), None)
+        def kret(p, v):
+            raise Unsupported(f'{where(s)}: return inside the loop body')
+        tree = self.exec_block([body], sub, kend, kret)
+        self.param_names, self.mode = saved
+        doc = (f'/-- flatset.hpp:{line_of(s)} body of the loop of `{self.cur_cpp}` over the elements `x` of the other set: '
+               f'(content, element erased from the other set?, comparator calls) -/')
+        sig = f'def {name} (lt : α → α → Bool) (l : List α) (x : α) : Option (List α × Bool × Nat) :='
+        self.aux_defs.append('\n'.join([doc, sig] + self.emit(tree, 1)) + '\n')
+        p = path.copy()
+        var = self.fresh(p, 'r')
+        call = f'foldErase ({name} {atom(p.cmp)}) {atom(p.olst)} {atom(p.lst)} []'
+        p.lst, p.olst = f'{var}.1', f'{var}.2.1'
+        p.csyms = p.csyms + (f'{var}.2.2',)
+        return Bind(call, var, after(p), line_of(s))
+
+    def while_loop(self, s, path, after):
+        """`while (COND) BODY` over local iterator variables of the two sets: COND and BODY become `<member>_step`
+        (contents, iterators) -> (continue?, contents, iterators, calls), iterated by `whileFuel` with the fuel
+        `l.length + o.length + 1` (enough when every round consumes an element of one of the two ranges: to be proved)."""
+        c = kids(s)
+        if len(c) != 2 or path.olst is None:
+            raise Unsupported(f'{where(s)}: while statement of an unknown shape')
+        cond, body = c
+        locs = [(nm, v) for nm, v in path.frames[-1].items() if v[0] not in ('this', 'alloc')]
+        if not locs or any(v[0] not in ('it', 'oit') for nm, v in locs):
+            raise Unsupported(f'{where(s)}: only iterators of the two sets may be live at the loop; found '
+                              + ', '.join(f'`{nm}` ({v[0]})' for nm, v in locs))
+        name = f'{self.cur_lean}_step'
+        self.aux_names.append(name)
+        lnames = []
+        for nm, v in locs:
+            if nm in RESERVED:
+                raise Unsupported(f'{where(s)}: local variable called `{nm}`')
+            lnames.append(nm)
+        sub = Path()
+        sub.olst, sub.ocmp = 'o', 'lt_o'
+        sub.frames = [dict(path.frames[-1])]
+        for nm, v in locs:
+            sub.frames[-1][nm] = (v[0], nm)
+        saved = (self.param_names, self.mode, self.in_loop_body)
+        self.param_names, self.mode, self.in_loop_body = set(lnames), 'while_step', True
+        def leaf(p, cont):
+            if p.cmp != 'lt' or p.ocmp != 'lt_o':
+                raise Unsupported(f'{where(s)}: the loop modifies a comparator object')
+            vals = []
+            for nm, v in locs:
+                w = p.frames[-1][nm]
+                if w[0] == 'itbad':
+                    return UB(f'`{nm}` is before begin() at the end of a round ({w[1]})', None)
+                vals.append(w[1])
+            return Leaf(None, f'{cont}, ({", ".join([p.lst, p.olst] + vals)})', p.calls_term(), None)
+        self.kbreak = lambda p: leaf(p, 'false')
+        def kret(p, v):
+            raise Unsupported(f'{where(s)}: return inside the loop body')
+        tree = self.eval(cond, sub, lambda p, v: self.branch(
+            v, p, cond, lambda q: self.exec_block([body], q, lambda r: leaf(r, 'true'), kret), lambda q: leaf(q, 'false')))
+        self.param_names, self.mode, self.in_loop_body = saved
+        sty = 'List α × List α' + ' × Nat' * len(locs)
+        doc = (f'/-- flatset.hpp:{line_of(s)} condition and body of the loop of `{self.cur_cpp}`: (another round?, (content, '
+               f'content of the other set, {", ".join(lnames)}), comparator calls) -/')
+        sig = (f'def {name} (lt : α → α → Bool) (l : List α) (lt_o : α → α → Bool) (o : List α)'
+               + ''.join(f' ({nm} : Nat)' for nm in lnames) + f' : Option (Bool × ({sty}) × Nat) :=')
+        self.aux_defs.append('\n'.join([doc, sig] + self.emit(tree, 1)) + '\n')
+        p = path.copy()
+        var = self.fresh(p, 'r')
+        # projections of a right-nested tuple: s.1, s.2.1, s.2.2.1, …, s.2.2…2
+        projs = []
+        for i in range(len(locs) + 2):
+            projs.append('s' + '.2' * i + ('' if i == len(locs) + 1 else '.1'))
+        init = ', '.join([p.lst, p.olst] + [v[1] for nm, v in locs])
+        call = (f'whileFuel (fun s => {name} {atom(p.cmp)} {projs[0]} {atom(p.ocmp)} ' + ' '.join(projs[1:]) + ') '
+                f'({atom(p.lst)}.length + {atom(p.olst)}.length + 1) ({init})')
+        rp = [f'{var}.1' + '.2' * i + ('' if i == len(locs) + 1 else '.1') for i in range(len(locs) + 2)]
+        p.lst, p.olst = rp[0], rp[1]
+        for (nm, v), t in zip(locs, rp[2:]):
+            p.frames[-1][nm] = (v[0], t)
+        p.csyms = p.csyms + (f'{var}.2',)
+        return Bind(call, var, after(p), line_of(s))
+
     # ---- one definition -----------------------------------------------------------------------------------------------
     def translate(self, decl, lean):
+        ctor = decl.get('kind') == 'CXXConstructorDecl'
         ps = params_of(decl)
         rk = self.ret_kind(decl)
-        names, kinds = [], []
-        for p in ps:
+        self.aux_defs, self.aux_names, self.extras = [], [], []
+        self.cur_lean = lean
+        cpp_sig = f'{decl.get("name")}({", ".join(qual(p) for p in ps)})'
+        self.cur_cpp = cpp_sig
+        names, ltypes, pk = [], [], []
+        path = Path()
+        node_param = None
+        i = 0
+        used = set()
+        def lname(nm):
+            l = nm + '_' if nm in RESERVED else nm
+            if l in used:
+                raise Unsupported(f'{where(decl)}: two Lean parameters called `{l}`')
+            used.add(l)
+            return l
+        while i < len(ps):
+            p = ps[i]
             nm = p.get('name')
             if not nm:
                 raise Unsupported(f'{where(decl)}: unnamed parameter')
-            kinds.append(self.type_kind(qual(p), p))
-            names.append(nm + '_' if nm in RESERVED else nm)
+            kd = self.param_kind(p)
+            pk.append(kd)
+            if kd in ('it', 'elem'):
+                l = lname(nm)
+                names.append(l); ltypes.append(self.lean_type(kd))
+                path.frames[-1][nm] = (kd, l)
+            elif kd == 'range':
+                if i + 1 >= len(ps) or self.param_kind(ps[i + 1]) != 'range' or (nm, ps[i + 1].get('name')) != ('first', 'last'):
+                    raise Unsupported(f'{where(decl)}: an input range is expected to be two consecutive parameters `first`, `last`')
+                l = lname('vs')
+                names.append(l); ltypes.append('List α')
+                path.frames[-1][nm] = ('rit', l, '0')
+                path.frames[-1][ps[i + 1]['name']] = ('rit', l, f'{l}.length')
+                pk.append('range')
+                i += 1
+            elif kd in ('ilist', 'vecval'):
+                l = lname(nm)
+                names.append(l); ltypes.append('List α')
+                path.frames[-1][nm] = (kd, l)
+            elif kd == 'comp':
+                l = lname(nm)
+                names.append(l); ltypes.append('α → α → Bool')
+                path.frames[-1][nm] = ('comp', l, None)
+            elif kd == 'alloc':
+                path.frames[-1][nm] = ('alloc',)
+            elif kd == 'node':
+                if node_param is not None:
+                    raise Unsupported(f'{where(decl)}: two node handles')
+                l = lname(nm)
+                names.append(l); ltypes.append('Option α')
+                node_param = (nm, l)
+            elif kd == 'other':
+                if nm != 'o' or path.olst is not None:
+                    raise Unsupported(f'{where(decl)}: the other set is expected to be a single parameter called `o`')
+                names += ['lt_o', 'o']; ltypes += ['α → α → Bool', 'List α']
+                used.update(('lt_o', 'o'))
+                path.frames[-1][nm] = ('this', 'o')
+                path.olst, path.ocmp = 'o', 'lt_o'
+            i += 1
         self.param_names = set(names)
-        path = Path()
-        for p, nm, kd in zip(ps, names, kinds):
-            if kd not in ('it', 'elem'):
-                raise Unsupported(f'{where(decl)}: parameter `{nm}` of kind {kd}')
-            path.frames[-1][p['name']] = (kd, nm)
-        const = self.is_const(decl)
+        two = path.olst is not None
+        const = (not ctor) and self.is_const(decl)
+        if ctor:
+            path.lst, path.cmp = None, 'lt_default'
+        init = (path.cmp, path.lst, path.ocmp, path.olst)
+        out_modes = set()
         def kret(p, v):
             if len(p.frames) != 1:
                 raise Unsupported(f'{where(decl)}: internal error, unbalanced frames')
             if rk == 'it' and v[0] == 'itbad':
                 return UB(f'an iterator before begin() is returned ({v[1]})', None)
-            if const and p.lst != 'l':
+            if const and (p.cmp, p.lst, p.ocmp, p.olst) != init:
                 raise Unsupported(f'{where(decl)}: const member `{decl.get("name")}` modifies the content ({p.lst})')
-            return Leaf(None if const else p.lst, self.to_term(v, rk, decl), p.calls_term(), None)
-        tree = self.exec_block([body_of(decl)], path, lambda p: self.fall_off(decl, p, kret), kret)
-        sig_params = ' '.join(f'({nm} : {self.lean_type(kd)})' for nm, kd in zip(names, kinds))
-        rty0 = atom(self.lean_type(rk)) if isinstance(rk, tuple) else self.lean_type(rk)
-        rty = f'Option ({rty0} × Nat)' if const else f'Option (List α × {rty0} × Nat)'
-        cpp_sig = f'{decl.get("name")}({", ".join(qual(p) for p in ps)})'
-        out = [f'/-- flatset.hpp:{line_of(decl)} `{cpp_sig}{" const" if const else ""}`: ({"" if const else "content, "}returned value, comparator calls); `none` = undefined behaviour -/',
-               f'def {lean} (lt : α → α → Bool) (l : List α){" " + sig_params if sig_params else ""} : {rty} :=']
-        out += self.emit(tree, 1)
-        self.sigs[lean] = (kinds, rk)
-        return '\n'.join(out) + '\n'
+            ret = self.to_term(v, rk, decl)
+            if node_param is not None:
+                nv = p.frames[0][node_param[0]]
+                if nv[1][0] == 'omoved':
+                    out_modes.add('moved')
+                else:
+                    out_modes.add('kept')
+                    ret = f'({ret}, {self.node_term(nv[1], decl)})'
+            lf = Leaf(None, ret, p.calls_term(), None)
+            lf.st = (p.cmp, p.lst, p.ocmp, p.olst)
+            return lf
+        def run(p):
+            if ctor:
+                return self.ctor_inits(decl, p, lambda q: self.exec_block([body_of(decl)], q, lambda r: kret(r, ('void',)), kret))
+            return self.exec_block([body_of(decl)], p, lambda q: self.fall_off(decl, q, kret), kret)
+        if node_param is not None:
+            pa, pb = path.copy(), path.copy()
+            var = self.fresh(pb, 'x')
+            pa.frames[-1][node_param[0]] = ('node', ('onone',))
+            pb.frames[-1][node_param[0]] = ('node', ('osome', var))
+            tree = MatchOpt(node_param[1], var, run(pa), run(pb), line_of(decl))
+        else:
+            tree = run(path)
+        if len(out_modes) > 1:
+            raise Unsupported(f'{where(decl)}: the node handle passed in is moved from on some paths only')
+        lvs = list(leaves(tree))
+        cmp_changed = any(lf.st[0] != init[0] or lf.st[2] != init[2] for lf in lvs) and not ctor
+        for lf in lvs:
+            c, l, oc, ol = lf.st
+            if l is None:
+                raise Unsupported(f'{where(decl)}: the underlying vector is never initialised')
+            if const:
+                lf.lst = None
+            elif ctor:
+                lf.lst = f'{c}, {l}'
+            elif two:
+                lf.lst = f'{c}, {l}, {oc}, {ol}' if cmp_changed else f'{l}, {ol}'
+            else:
+                if c != init[0]:
+                    raise Unsupported(f'{where(decl)}: the comparator object of the set is modified')
+                lf.lst = l
+        if ctor:
+            for lf in lvs:
+                lf.ret = None
+            if any(lf.st[0] == 'lt_default' for lf in lvs):
+                self.use_extra('lt_default')     # the comparator object of a set constructed without one
+        rty0 = self.lean_type(rk)
+        if node_param is not None and out_modes == {'kept'}:
+            rty0 = f'({atom(rty0) if "×" in rty0 else rty0} × Option α)'
+        elif '×' in rty0:
+            rty0 = atom(rty0)
+        if const:
+            rty = f'Option ({rty0} × Nat)'
+            what = 'returned value, comparator calls'
+        elif ctor:
+            rty = 'Option ((α → α → Bool) × List α × Nat)'
+            what = 'comparator object stored in the new set, content, comparator calls'
+        elif two and cmp_changed:
+            rty = f'Option ((α → α → Bool) × List α × (α → α → Bool) × List α × {rty0} × Nat)'
+            what = 'comparator, content, comparator of the other set, content of the other set, returned value, comparator calls'
+        elif two:
+            rty = f'Option (List α × List α × {rty0} × Nat)'
+            what = 'content, content of the other set, returned value, comparator calls'
+        else:
+            rty = f'Option (List α × {rty0} × Nat)'
+            what = 'content, returned value, comparator calls'
+        if node_param is not None and out_modes == {'kept'}:
+            what = what.replace('returned value', '(returned value, node handle left to the caller)')
+        extras = list(self.extras)
+        sig_params = ''.join(f' ({nm} : {ty})' for nm, ty in zip(names, ltypes))
+        sig_params += ''.join(f' ({ex} : α → α → Bool)' for ex in extras)
+        if ctor:
+            head = f'def {lean}{sig_params} : {rty} :='
+        else:
+            head = f'def {lean} (lt : α → α → Bool) (l : List α){sig_params} : {rty} :='
+        out = list(self.aux_defs)
+        out.append('\n'.join([f'/-- flatset.hpp:{line_of(decl)} `{cpp_sig}{" const" if const else ""}`: ({what}); `none` = undefined behaviour -/',
+                              head] + self.emit(tree, 1)) + '\n')
+        self.sigs[lean] = dict(pk=pk, ret=rk, const=const, two=two, extras=extras, ctor=ctor, cmp_changed=cmp_changed)
+        return '\n'.join(out)
+
+    def ctor_inits(self, decl, path, k):
+        """the member initialiser list of a constructor: the comparator base, `_sortedVector`, or a delegation"""
+        inits = [c for c in kids(decl) if c.get('kind') == 'CXXCtorInitializer']
+        def do(rest, p):
+            if not rest:
+                return k(p)
+            ci = rest[0]
+            e = kids(ci)
+            if len(e) != 1:
+                raise Unsupported(f'{where(decl)}: constructor initialiser with {len(e)} expressions')
+            e = e[0]
+            if 'baseInit' in ci:
+                if ci['baseInit'].get('qualType') != self.comp_type:
+                    raise Unsupported(f'{where(e)}: initialiser of an unknown base class `{ci["baseInit"].get("qualType")}`')
+                def cont(q, v):
+                    if v[0] != 'comp':
+                        raise Unsupported(f'{where(e)}: the comparator base is initialised with a {v[0]}')
+                    q = q.copy()
+                    q.cmp = self.comp_term(v)
+                    return do(rest[1:], q)
+                return self.eval(e, p, cont)
+            if 'anyInit' in ci:
+                if ci['anyInit'].get('name') != '_sortedVector':
+                    raise Unsupported(f'{where(e)}: initialiser of an unknown data member `{ci["anyInit"].get("name")}`')
+                ce = peel(e)
+                if ce.get('kind') != 'CXXConstructExpr':
+                    raise Unsupported(f'{where(e)}: `_sortedVector` is initialised by a {ce.get("kind")}')
+                def cont(q, vs):
+                    kinds = [v[0] for v in vs]
+                    q = q.copy()
+                    if kinds == ['alloc']:
+                        q.lst = '[]'
+                    elif kinds == ['rit', 'rit', 'alloc'] and vs[0][1] == vs[1][1]:
+                        q.lst = self.sub_range(vs[0][1], vs[0][2], vs[1][2])
+                    elif kinds == ['vecval', 'alloc']:
+                        q.lst = vs[0][1]
+                    else:
+                        raise Unsupported(f'{where(e)}: `_sortedVector` constructed from ({", ".join(kinds)})')
+                    return do(rest[1:], q)
+                return self.eval_list(kids(ce), p, cont)
+            if 'delegatingInit' in ci:
+                ce = peel(e)
+                if ce.get('kind') != 'CXXConstructExpr' or len(inits) != 1:
+                    raise Unsupported(f'{where(e)}: delegating initialiser of an unknown shape')
+                cty = ce.get('ctorType', {}).get('qualType')
+                tg = [mid for mid in self.targets if self.by_id[mid].get('kind') == 'CXXConstructorDecl' and qual(self.by_id[mid]) == cty]
+                if len(tg) != 1 or self.targets[tg[0]] not in self.sigs:
+                    raise Unsupported(f'{where(e)}: delegation to a constructor that is not generated (`{cty}`)')
+                lean = self.targets[tg[0]]
+                sg = self.sigs[lean]
+                def cont(q, vs):
+                    terms = self.conv_args(e, lean, sg['pk'], vs, q, 's')
+                    if isinstance(terms, UB):
+                        return terms
+                    q = q.copy()
+                    var = self.fresh(q, 'r')
+                    for ex in sg['extras']:
+                        self.use_extra(ex)
+                    call = ' '.join([lean] + terms + sg['extras'])
+                    q.cmp, q.lst = f'{var}.1', f'{var}.2.1'
+                    q.csyms = q.csyms + (f'{var}.2.2',)
+                    return Bind(call, var, do(rest[1:], q), line_of(e))
+                return self.eval_list(kids(ce), p, cont)
+            raise Unsupported(f'{where(decl)}: constructor initialiser of an unknown kind')
+        return do(inits, path)
 
     def emit(self, t, d):
         ind = '  ' * d
@@ -912,10 +1944,16 @@ class Translator:
             return ([f'{ind}match {t.call} with{ln(t.line)}',
                      f'{ind}| none => none',
                      f'{ind}| some {t.var} =>'] + self.emit(t.sub, d + 1))
+        if isinstance(t, MatchOpt):
+            return ([f'{ind}match {t.term} with{ln(t.line)} ({t.what})',
+                     f'{ind}| none =>'] + self.emit(t.a, d + 1) + [f'{ind}| some {t.var} =>'] + self.emit(t.b, d + 1))
         if isinstance(t, Let):
             return [f'{ind}let {t.var} := {t.term}{ln(t.line)}'] + self.emit(t.sub, d)
         if isinstance(t, Leaf):
-            return [f'{ind}some ({t.ret}, {t.calls})' if t.lst is None else f'{ind}some ({t.lst}, {t.ret}, {t.calls})']
+            if t.calls is None:
+                return [f'{ind}{t.ret}']
+            parts = [x for x in (t.lst, t.ret, t.calls) if x is not None]
+            return [f'{ind}some ({", ".join(parts)})']
         if isinstance(t, UB):
             return [f'{ind}none  -- {t.why}']
         raise Unsupported('internal error: unknown tree node')
@@ -932,6 +1970,72 @@ def find_spec(objs):
     return specs[0]
 
 
+PRELUDE = '''/-! Library algorithms and operators of the underlying vector that the members below call: named list functions at the
+level of their specification (the translator pins WHICH algorithm is called on WHICH range with WHICH comparator object). -/
+
+/-- `operator==` of the underlying vector (vectorcommon.hpp): equal sizes and `std::equal`, with `==` of the ELEMENT type -/
+def vecEq (eqT : α → α → Bool) : List α → List α → Bool
+  | [], [] => true
+  | a :: l, b :: o => eqT a b && vecEq eqT l o
+  | _, _ => false
+
+/-- `operator<` of the underlying vector (vectorcommon.hpp): `std::lexicographical_compare`, with `<` of the ELEMENT type -/
+def vecLess (ltT : α → α → Bool) : List α → List α → Bool
+  | _, [] => false
+  | [], _ :: _ => true
+  | a :: l, b :: o => if ltT a b then true else if ltT b a then false else vecLess ltT l o
+
+/-- `std::stable_sort(begin() + k, end(), comp)`: the first `k` elements stay, the others are sorted, equivalent elements
+    keeping their relative order (`List.mergeSort` is the stable sort of the Lean core library) -/
+def stableSortTail (comp : α → α → Bool) (l : List α) (k : Nat) : List α :=
+  l.take k ++ (l.drop k).mergeSort (fun a b => !comp b a)
+
+/-- `std::inplace_merge(begin(), begin() + k, end(), comp)`: stable merge of the two consecutive ranges (of two equivalent
+    elements the one of the first range comes first) -/
+def inplaceMerge (comp : α → α → Bool) (l : List α) (k : Nat) : List α :=
+  List.merge (l.take k) (l.drop k) (fun a b => !comp b a)
+
+/-- `std::unique` continued after the last element kept, `prev` -/
+def uniqueAux (eqv : α → α → Bool) (prev : α) : List α → List α
+  | [] => []
+  | b :: t => if eqv prev b then uniqueAux eqv prev t else b :: uniqueAux eqv b t
+
+/-- `v.erase(std::unique(v.begin(), v.end(), eqv), v.end())`: of every run of consecutive elements that `eqv` relates to
+    the last element kept, only the first is kept -/
+def uniqueBy (eqv : α → α → Bool) : List α → List α
+  | [] => []
+  | a :: t => a :: uniqueAux eqv a t
+
+/-- the loop `for (it = o.mbegin(); it != o.mend();) BODY` where BODY ends with `it = o._sortedVector.erase(it)` or `++it`:
+    a fold of the generated body over the elements of the other set; `kept` collects the elements that stay in it.
+    Result: (content, what is left in the other set, comparator calls) -/
+def foldErase (step : List α → α → Option (List α × Bool × Nat)) : List α → List α → List α → Option (List α × List α × Nat)
+  | [], l, kept => some (l, kept, 0)
+  | x :: rest, l, kept =>
+    match step l x with
+    | none => none
+    | some r =>
+      match foldErase step rest r.1 (if r.2.1 then kept else kept ++ [x]) with
+      | none => none
+      | some q => some (q.1, q.2.1, r.2.2 + q.2.2)
+
+/-- a `while` loop whose condition and body are `step` (another round?, new state, comparator calls), run for at most `fuel`
+    rounds; running out of fuel is not a result (`none`) -/
+def whileFuel {σ : Type} (step : σ → Option (Bool × σ × Nat)) : Nat → σ → Option (σ × Nat)
+  | 0, _ => none
+  | fuel + 1, s =>
+    match step s with
+    | none => none
+    | some r =>
+      if r.1 then
+        match whileFuel step fuel r.2.1 with
+        | none => none
+        | some q => some (q.1, r.2.2 + q.2)
+      else
+        some (r.2.1, r.2.2)
+'''
+
+
 def generate(include):
     hdr = os.path.join(include, 'amc', 'flatset.hpp')
     if not os.path.exists(hdr):
@@ -940,11 +2044,15 @@ def generate(include):
         src = os.path.join(wd, 'inst_flatset.cpp')
         with open(src, 'w') as f:
             f.write(INST_SOURCE)
-        objs = clang_dump(include, src, 'FlatSet')
+        objs = clang_dump(include, src, 'FlatSet', DEFINES)
     for o in objs:
         annotate_lines(o)
     spec = find_spec(objs)
-    tr = Translator(spec)
+    others = []
+    for o in objs:
+        if o.get('kind') == 'ClassTemplateDecl' and o.get('name') == 'FlatSet':
+            others += [c for c in kids(o) if c.get('kind') == 'ClassTemplateSpecializationDecl' and c.get('inner') and c is not spec]
+    tr = Translator(spec, others)
     by_lean = {lean: mid for mid, lean in tr.targets.items()}
     out = ['/- GENERATED by translator/flatset2lean.py from include/amc/flatset.hpp (instantiation amc::FlatSet<int>). Do not edit. -/',
            'import AmcVerif.Model.Sets',
@@ -952,7 +2060,8 @@ def generate(include):
            'namespace AmcVerif.Gen.FlatSet',
            'open AmcVerif',
            'variable {α : Type}',
-           '']
+           '',
+           PRELUDE]
     for nm, ptypes, lean in TARGETS:
         out.append(tr.translate(tr.by_id[by_lean[lean]], lean))
     out.append('end AmcVerif.Gen.FlatSet')
